@@ -12,1231 +12,1282 @@ Definition show_fres (r : fres) : string :=
   end.
 Definition check (rs : list rune) : string := digest (show_fres (format_res rs)).
 Definition full (rs : list rune) : string := show_fres (format_res rs).
-Eval vm_compute in ("<<<M902>>>" ++ check (runes_of_ascii "root packet charz {repeat o
-// a // b
-// trailing space 
-Packet
-,} packet	float
-{ match
-crc
-as
-    /// triple
-    body{""\" ++ [233]%N ++ runes_of_ascii """ :f32a 4294967296 :len
-    [ ""// no comment""
-    //x
+Eval vm_compute in ("<<<M310>>>" ++ check (runes_of_ascii "root packet rootA {@calculatedFrom(
+""""
+)match packetx as x_y_z
+{ // `tick` ""quote"" 'q'
+""" ++ [28040; 24687]%N ++ runes_of_ascii """ : crc , ""a	b""
+    :
+i8i8, ""it's"" : msg_type
+10
+    :
+string_,0123456789:int ,
+}	,	zchar[ 0123456789
     ]
-: lengthOf, 65535 : // c
-i64_ ,
-//x
-//
-4294967296 : Pad,} , Logon // trailing space 
-, float64 body	@lengthOf( leftPad )
-`say ""hi""`
-    , match u8x as repeatCount{
-    // @lengthOf(
-    """ ++ [128512]%N ++ runes_of_ascii """ :
-i8i8
-    ,
-    ""\n"":tag , 7:pack , """ ++ [28040; 24687]%N ++ runes_of_ascii """
-//	t
-// " ++ [27880; 37322]%N ++ runes_of_ascii "
-: calculatedFrom, /// triple
-[
-    0 ,""it's""	]
-:
-    int } // c
-,char[0] stringy
-, repeat float32 trueish  `u8 x,`,char[]	T , } packet  calculatedFrom //	t
-{ matchKey	matchKey,@leftPad
-/// triple
-// `tick` ""quote"" 'q'
-(
-)msg_type, int16 // packet A { u8 x, }
-BodyLength `" ++ [233]%N ++ runes_of_ascii "` , char[
-    /// triple
-    255] /// triple
-packetx , @calculatedFrom( ""x y"" ) match
-    Packet as
-    uint8x // c
-{ ""\n"": repeatCount ,
-    [
-// packet A { u8 x, }
-// packet A { u8 x, }
-65535 ] : leftPad ,
-    ""\n"" :
-trueish,[""" ++ [233]%N ++ runes_of_ascii "t" ++ [233]%N ++ runes_of_ascii """
-,
-    1 // " ++ [27880; 37322]%N ++ runes_of_ascii "
-, ""abc""	,
-10]:f32a // " ++ [27880; 37322]%N ++ runes_of_ascii "
-[ ""// no comment"" ] : u// @lengthOf(
-65535
-: matchKey , } , match _x as float{ ""x y"": len  , } ,
-    char a1// c
-@lengthOf( i64_
-)	,_x @calculatedFrom(""\n"")
-`// not a comment`  , repeat calculatedFrom{ zchar[ 1] // " ++ [128512]%N ++ runes_of_ascii " emoji
-Foo , char[	7] options1 `tab	here`
-, //
-match
-    chars as A
-    { 4294967296 : string_
-    , } , u8x	@calculatedFrom(""`tick`""
-)
-, }
-    ,
-} packet calculatedFrom  {
-    @lengthOf(tag ) @leftPad(
-    //x
-    '\x00'
-    // " ++ [27880; 37322]%N ++ runes_of_ascii "
-    ) @rightPad
-    (
-'0')char[ 0123456789
-] u128 , rootA
-{zchar[ // a // b
-4294967296  ]
-//	t
-// a // b
-_x// a // b
-@lengthOf(
-    metadata // trailing space 
-) ,
-    } ,	Header u , @calculatedFrom(""it's"" )
-// @lengthOf(
-// trailing space 
-Pad @calculatedFrom( ""abc"" ) , @lengthOf(
-u
-) @lengthOf( len)
-    @rightPad	( ) // trailing space 
-int64 uint8x `// not a comment` , } root packet roots { u@lengthOf( i8i8 ) , @calculatedFrom(""\" ++ [233]%N ++ runes_of_ascii """)
-    BodyLength
-Logon, uint16 body @lengthOf(
-f32a )	`a\`, int16 // a // b
-zchar , @calculatedFrom(""a	b"" ) u32 u128 // @lengthOf(
-`
-` ,
-    Pad T //	t
-`
-`,
-    }")).
-Eval vm_compute in ("<<<M4378>>>" ++ check (runes_of_ascii "packet o {
-    crc {
-        string leftPad @calculatedFrom(""\n"") `it's`,
-        uint16 x_y_z,
-        Logon,
-        string crc @lengthOf(crc),
-    },
-    @calculatedFrom("""")
-    u64 matchKey ``,
-    match leftPad as len {
-        00 : charz,
-    },
-    @tag(007)
-    @tag(65535)
-    // a // b
-    //	t
-    repeat stringy crc,
-    @lengthOf(f32a)
-    match tag as leftPad {
-        ""1"" : _x,
-    },
-    roots {
-        tag,
-        float64 body,// packet A { u8 x, }
-        f64 As @lengthOf(tag) `line1
-        line2`,
-    },
-    i64_ @calculatedFrom(""x y""),// " ++ [128512]%N ++ runes_of_ascii " emoji
-    Packet @calculatedFrom(""\n""),
-    @lengthOf(BodyLength)
-    char[42] int @lengthOf(lengthOf) `say ""hi""`,
-}
-
-MetaData u {
-    f64 msg_type,
-    uint8 As `say ""hi""`,
-    leftPad packetx,
-    int32 As `tab	here`,
-    i64 trueish,
-    uint16 calculatedFrom,
-}
-
-packet f32a {
-    roots x_y_z,
-    match body as f32a {
-        [255, 10] : BodyLength,
-        ""// no comment"" : packetx,
-        [
-            65535, 4294967296, 255, 7, 0,
-            ""{,}"", ""{,}"", """"
-        ] : uint8x,
-        255 : trueish,
-        7 : u128,
-        0123456789 : asx,
-    },// " ++ [128512]%N ++ runes_of_ascii " emoji
-    match A as o {
-        0 : trueish,
-        ""1"" : i8i8,
-        42 : Z9_,
-    },
-    options1,
-    @tag(0123456789)
-    repeat zchar {
-        Foo @lengthOf(float),/// triple
-    },
-    match msg_type as u {
-        // packet A { u8 x, }
-        0123456789 : repeatCount,
-    },
-    @calculatedFrom(""it's"")
-    i64_ @lengthOf(x_y_z),
-    char[00] Packet `" ++ [28040; 24687; 31867; 22411]%N ++ runes_of_ascii "`,
-    u16 lengthOf `a\`,
-    @calculatedFrom(""\" ++ [233]%N ++ runes_of_ascii """)
-    i64_ int,
-}
-
-packet uint8x {
-    string Header @lengthOf(matchKey) `" ++ [28040; 24687; 31867; 22411]%N ++ runes_of_ascii "`,
-}
-
-packet crc {
-}")).
-Eval vm_compute in ("<<<M940>>>" ++ check (runes_of_ascii "  options {
-    uint8x = u64 ; crc =	'0'
-// @lengthOf(
-// " ++ [128512]%N ++ runes_of_ascii " emoji
-MetaDataX= '0' ;
-    len
-    ='0' } MetaData
-matchKey
-{/// triple
-}
-packet
-// " ++ [128512]%N ++ runes_of_ascii " emoji
-/// triple
-i64_{ BodyLength
-    `tab	here`, @tag(
-00 )
-repeat string_ ,
-    @calculatedFrom( """ ++ [28040; 24687]%N ++ runes_of_ascii """ ) @leftPad ( '0' ) crc @calculatedFrom(
-    """ ++ [233]%N ++ runes_of_ascii "t" ++ [233]%N ++ runes_of_ascii """
-    ) , @tag(
-    1	)  zchar[ 007 ] packetx
-`
-`,
-@leftPad (
-'0' ) x @calculatedFrom( ""packet""
-    )
-// `tick` ""quote"" 'q'
-// a // b
-,
-@lengthOf( A ) /// triple
-@calculatedFrom(  ""{,}"" //x
-)@rightPad (
-'0'  ) string Header `say ""hi""`
-// a // b
-// c
-, @lengthOf(	u8x
-)
-x Header `doc`
-// packet A { u8 x, }
-//x
-,}
-    packet uint8x{ @leftPad (
-'\x00')
-    @lengthOf( //	t
-leftPad	)
-    BodyLength u , }	root packet A { @rightPad ( '\x00' )
-    @lengthOf(
-    leftPad  ) char[ 4294967296 ] A @calculatedFrom( ""// no comment"" ),
-    @tag(
-42	)
-@calculatedFrom( ""packet"")	@calculatedFrom( """ ++ [128512]%N ++ runes_of_ascii """ ) repeat
-Z9_ `" ++ [28040; 24687; 31867; 22411]%N ++ runes_of_ascii "` ,
-rootA crc // " ++ [27880; 37322]%N ++ runes_of_ascii "
-,
-    Header ,  char[
-    4294967296	]
-charz`{ , }` , @calculatedFrom( ""\n"" ) @calculatedFrom(
-    ""it's"" ) u64//
-stringy
-    `" ++ [233]%N ++ runes_of_ascii "` , repeat options1 {
-    body
-    { lengthOf @calculatedFrom(
-    //x
-    ""a\\""
-)
-, options1{ repeat chars leftPad `two words` ,
-// " ++ [27880; 37322]%N ++ runes_of_ascii "
-// " ++ [27880; 37322]%N ++ runes_of_ascii "
-} , } ,repeat// " ++ [27880; 37322]%N ++ runes_of_ascii "
-char[] _x , zchar[ 3] options1
-    //x
-    ,
-} ,@lengthOf( packetx ) @leftPad
-    ( ' '
-    )
-    @lengthOf( rootA )float  Packet , @tag( 7 )
+_x	`say ""hi""` , @lengthOf(	lengthOf )
 repeat
-// " ++ [27880; 37322]%N ++ runes_of_ascii "
-// trailing space 
-u8	matchKey,}
-//	t
-")).
-Eval vm_compute in ("<<<M531>>>" ++ check (runes_of_ascii "root packet
-    uint8x// packet A { u8 x, }
-{ match trueish
-    as body
-{
-[
-    007, ""packet"" ] : metadata
-42 : metadata , }
-    , }
-    MetaData roots{ i64 MetaDataX`a\` // a // b
-,
-    uint8	float,char[42
-]
-    u8x , i64 a1 // @lengthOf(
-,
-o Pad`line1
-line2` ,	}
-options
-{ Foo
-= true //	t
-;
-f32a
-    =""a	b"" ; falsey =
-true ; } packet //x
-float { @calculatedFrom(	""packet"" )repeat
-    len , lengthOf
-BodyLength ,@lengthOf(charz ) // @lengthOf(
-@calculatedFrom( ""{,}"") A
-,@tag( 0123456789
-//
-// @lengthOf(
-)
-crc,
-/// triple
-//x
-zchar[  1] leftPad`it's` , // @lengthOf(
-@lengthOf( metadata ) //x
-@lengthOf(matchKey)// trailing space 
-@lengthOf( As
-    )int16 packetx `// not a comment` //x
-, A // " ++ [128512]%N ++ runes_of_ascii " emoji
-string_ `{ , }` ,} root
-    packet
-    roots { @tag(
-4294967296)
-@lengthOf(
-chars  ) repeat tag
-//
-// packet A { u8 x, }
-`// not a comment` ,//	t
-@leftPad
-    (//	t
-' ' )uint16 falsey `say ""hi""` , @tag( 10
-    ) leftPad	{
-    int8	len `a\`, // a // b
-f32a i8i8 , // " ++ [128512]%N ++ runes_of_ascii " emoji
-u16 i8i8 ,  uint8
-options1
-, }
-    ,
-    @lengthOf( falsey )@tag(
-255
-) // @lengthOf(
-@leftPad (
-' ' // " ++ [27880; 37322]%N ++ runes_of_ascii "
-)
-    repeat float
-Foo , zchar[ 3 ]  rootA `tab	here`, @lengthOf(
-    uint8x )
-packetx Z9_,
-    @tag(7) // " ++ [27880; 37322]%N ++ runes_of_ascii "
-repeat char[// " ++ [128512]%N ++ runes_of_ascii " emoji
-10]calculatedFrom
-, }")).
-Eval vm_compute in ("<<<M478>>>" ++ check (runes_of_ascii "packet	leftPad {
-    } root	packet u128 { char[0 ] body @lengthOf(int)//	t
-`two words` , @lengthOf(
-// c
-// `tick` ""quote"" 'q'
-body )// @lengthOf(
-Pad { float
-    @lengthOf( crc), zchar[ 255 ]roots `tab	here`/// triple
-,
-    }
-,float64 stringy `tab	here` ,
-    u x ,
-float32 _x	``,x_y_z// c
-@lengthOf(matchKey
-)
-    `it's` , @leftPad
-    // trailing space 
-    ( '0' ) char[ 65535
-    ]
-pack `// not a comment`,
-char
-repeatCount , u8x , charz `" ++ [233]%N ++ runes_of_ascii "` ,
-}packet
-metadata { zchar[
-3 ] As
-    @calculatedFrom(
-/// triple
-// @lengthOf(
-""x y"" )
-, @leftPad (
-' ') // trailing space 
-matchKey`two words` , // packet A { u8 x, }
-@tag(  3 // packet A { u8 x, }
-) BodyLength
-    { match zchar as int {
-    ""a	b"" :int } // `tick` ""quote"" 'q'
-, } , @tag( 7 ) // packet A { u8 x, }
-match	x
-as
-    A	{ //
-10 : metadata ,
-} , zchar[ //x
-3 ] chars ,}
-    root
-// `tick` ""quote"" 'q'
-// a // b
-packet u128{ char[]
-    Z9_
-    @calculatedFrom( ""a\\""// a // b
-)
-, repeat string lengthOf , string tag, u32 a1 /// triple
-`it's`
-    , }
-packet charz//
-{repeat
-chars
-, @leftPad ( '\x00')
-    u16//
-u
-`two words` , match
-    BodyLength as
-_x {
-7 :
-    zchar ,}  ,
-}")).
-Eval vm_compute in ("<<<M273>>>" ++ check (runes_of_ascii "root packet T // trailing space 
-{
-//	t
-//
-@rightPad( // " ++ [27880; 37322]%N ++ runes_of_ascii "
-'\x00'
-    ) repeat metadata {repeat
-    i64 Z9_ , }
-    , } options {_x = char[] ; tag
-    =
-    // packet A { u8 x, }
-    uint32 calculatedFrom	=u16;  } packet // c
-packetx { @leftPad /// triple
-(' '	) int trueish , packetx
-{
-    leftPad	@lengthOf( //	t
-string_ )
-    , // `tick` ""quote"" 'q'
-repeat o	string_	,  match // " ++ [27880; 37322]%N ++ runes_of_ascii "
-stringy as packetx{ 0 :// `tick` ""quote"" 'q'
-pack,
-    // @lengthOf(
-    ""CRC32""	:tag ,
-    // trailing space 
-    """ ++ [128512]%N ++ runes_of_ascii """:
-    Z9_	4294967296 :  chars//x
-,007 : calculatedFrom ,10
-    : u8x , }
-    , } // " ++ [27880; 37322]%N ++ runes_of_ascii "
-, repeat BodyLength{ //	t
-repeat char[ 3 ]	metadata `a\` ,  repeat char
-pack`a\` , char
-Header
+    //x
+    chars
+{ repeat i16 u , }, i16 u @lengthOf( Pad ) `say ""hi""`
+, string
+    u8x @calculatedFrom(
+    ""\n""
+    ) //	t
+`" ++ [233]%N ++ runes_of_ascii "` //x
+,MetaDataX`" ++ [233]%N ++ runes_of_ascii "` , char[] Header  @lengthOf(
     //	t
-    @calculatedFrom(
-""// no comment"")
-    ,
-    uint32 roots
-    @lengthOf( i64_ ) ,
-    }
-    ,
-// a // b
-// trailing space 
-pack , repeat len Header `
-` ,	f64	f32a, char[] x,
-    Header @lengthOf(a1	) , asx
-@lengthOf( calculatedFrom	) ,  } MetaData roots {
-options1 As// a // b
-, string_
-// `tick` ""quote"" 'q'
+    Foo )`u8 x,`, //
+}
 // c
-float
-`{ , }`
-/// triple
-// packet A { u8 x, }
-, // trailing space 
-} 	 ")).
-Eval vm_compute in ("<<<M154>>>" ++ check (runes_of_ascii "root packet // packet A { u8 x, }
-a1 {
-    // " ++ [27880; 37322]%N ++ runes_of_ascii "
-    repeat leftPad {
-    // a // b
-    lengthOf
-, }
-    ,
-    @tag(// c
-0123456789)int64 repeatCount ``,	match
-int as len {
-1 : repeatCount , """" : lengthOf,
-[
-""a\""b""
-    , 255,
-7 ,""it's"" ,255,
-    00 , 7 , ""`tick`""
-    //
-    ]
-    : msg_type , 42 :body
-    ,
-    } ,
-    repeat asx { charz { char[ 007 ]f32a ,
-    // a // b
-    } ,match
-    u as
-    Z9_ { """ ++ [233]%N ++ runes_of_ascii "t" ++ [233]%N ++ runes_of_ascii """ : float
-,
-    // c
-    ""1""
-: Pad , [
-    """", 10 ] // packet A { u8 x, }
-: Header , [ 42 ]: repeatCount , 00// a // b
-: T , } , } ,
-@rightPad ( ' ' )
-falsey,
-    @tag( 0) @calculatedFrom(	""1"" )
-@leftPad (
-    '\x00') o , }
-    MetaData i64_{ } packet x{
-@lengthOf( Header) repeat
-msg_type {
-    repeat char[ 0123456789 ] u,
-    // packet A { u8 x, }
-    uint32
-BodyLength	@lengthOf( _x) `crlf
-line` , },} MetaData Header { Header
-    options1,
-    f32a
-stringy ,
-    char[] uint8x `a\` , char[ // trailing space 
-1
-    // packet A { u8 x, }
-    ] u128, i32 Z9_
-    ,
-    float32 // a // b
-msg_type,
-    }
-
-")).
-Eval vm_compute in ("<<<M903>>>" ++ check (runes_of_ascii "MetaData falsey {
-    i8 Logon,// packet A { u8 x, }
-len
-    metadata
-    `doc` ,
-} MetaData // " ++ [27880; 37322]%N ++ runes_of_ascii "
-Foo{ char[	65535]  calculatedFrom `
-`
-// a // b
-//x
-, matchKey// c
-zchar ,	u stringy `
-` ,
-    MetaDataX u `say ""hi""` ,// c
-} packet
-msg_type {@lengthOf(Z9_)
-//x
-//x
-@lengthOf(
-x
-)
-    @tag( 0
-    ) calculatedFrom
-    {
-msg_type@calculatedFrom(""CRC32"") `say ""hi""` ,repeat	matchKey { repeat
-    T
-{ char[ // " ++ [27880; 37322]%N ++ runes_of_ascii "
-1 ] T ,
-repeatCount `line1
-line2`
-    ,match	int as x {""packet"" //x
-:  options1 ,
-00
-: calculatedFrom 00 : falsey , } , } ,
-    char[] uint8x
-, match Packet as falsey {
-7:// packet A { u8 x, }
-f32a , // a // b
-10:
-u
-, 1
-:Header ,
-[ ""packet"" // " ++ [27880; 37322]%N ++ runes_of_ascii "
-, 0
-// " ++ [27880; 37322]%N ++ runes_of_ascii "
-// @lengthOf(
-,""a	b"" ]
-:o
-0123456789:
-    chars}
-    , zchar[ 65535 ]
-Foo ,} ,
-}
-    , }// packet A { u8 x, }
-root packet u//x
-{ @tag(
-007
-) i32// trailing space 
-stringy @lengthOf(
-    //
-    a1) `{ , }` , } MetaData
-string_ { uint64 chars
-`crlf
-line` ,
-    char[ // @lengthOf(
-3
-    ] u8x `a\` , }")).
-Eval vm_compute in ("<<<M387>>>" ++ check (runes_of_ascii "
-root  packet chars{
-match options1
-as zchar { ""a\\""
-: Packet }
-    // c
-    ,u16	metadata @calculatedFrom( ""{,}"" ) ,	repeat A msg_type , @calculatedFrom( ""CRC32"")@lengthOf(
-    float ) @lengthOf(MetaDataX )
-repeat zchar[0123456789 ] Z9_// c
-`{ , }` , @tag(7)
-// trailing space 
-// a // b
-float32
-crc
-// trailing space 
-// packet A { u8 x, }
-@lengthOf(charz )
-, @tag(
-// packet A { u8 x, }
-//	t
-3 ) calculatedFrom Pad, // c
-repeat int32 trueish
-, }
-    options  {A = zchar[
-65535 ] Logon = ""abc""
-chars =
-    7 Pad = ""\" ++ [233]%N ++ runes_of_ascii """
-    }packet int // @lengthOf(
-{ @lengthOf(
-MetaDataX ) @calculatedFrom(
-// packet A { u8 x, }
-// a // b
-""\" ++ [233]%N ++ runes_of_ascii """
-) zchar[
-    4294967296
-] matchKey @lengthOf( Pad)
-`" ++ [28040; 24687; 31867; 22411]%N ++ runes_of_ascii "`
-    ,
-}
-packet As
-{
-@lengthOf( BodyLength )
-    u64 matchKey ,u64
-    trueish `" ++ [28040; 24687; 31867; 22411]%N ++ runes_of_ascii "` , @rightPad
-( )char[
-00]
-    A
-@calculatedFrom(
-    """ ++ [128512]%N ++ runes_of_ascii """ )`say ""hi""`	, repeatCount@lengthOf(BodyLength
-// a // b
-// `tick` ""quote"" 'q'
-) ,
-len  ,}")).
-Eval vm_compute in ("<<<M1096>>>" ++ check (runes_of_ascii "
-MetaData T { char[
-    007] x	`// not a comment` , u8 x_y_z
-`// not a comment`
-//	t
-// trailing space 
-, As body // " ++ [27880; 37322]%N ++ runes_of_ascii "
-, T chars `tab	here`
-    , }	root packet
-len { A  , @calculatedFrom(""" ++ [128512]%N ++ runes_of_ascii """ )
-crc ,x_y_z {falsey { Foo {x@lengthOf(
-MetaDataX)`u8 x,` , u64 As
-    `// not a comment`	,} , u32 //x
-lengthOf `two words` , char[ 42 ]
-x_y_z
-    // `tick` ""quote"" 'q'
-    @lengthOf(Z9_ )
-,} ,uint64 asx `it's` , pack	packetx ,
-}
-    , @rightPad	( ) match
-    Foo
-    as Packet
-{3:
-float
-// a // b
-// " ++ [27880; 37322]%N ++ runes_of_ascii "
-, ""x y""  : chars
-, [ 7 ] :	trueish	,
-    ""`tick`""
-:
-    x ,
-    ""\" ++ [233]%N ++ runes_of_ascii """ : Pad ""// no comment"" : MetaDataX , } , x repeatCount
-    //
-    `" ++ [28040; 24687; 31867; 22411]%N ++ runes_of_ascii "` , repeat char[
-7
-] falsey ,
-    @lengthOf(int ) @calculatedFrom(
-    //
-    """"
-    /// triple
-    ) @tag( 255
-)match
-u as chars{ 0: Pad 0 : charz,
-    ""a\""b"" :	matchKey
-    , 42 /// triple
-: x}
-, @calculatedFrom(
-""abc""	) repeat
-int64
-len  , }")).
-Eval vm_compute in ("<<<M4492>>>" ++ check (runes_of_ascii "packet lengthOf {
-    crc @calculatedFrom("""") `two words`,
-    @lengthOf(crc)
-    @calculatedFrom(""x y"")
-    u16 Logon `line1
-    line2`,
-}
-
-MetaData u128 {
-}
-
-packet len {
-    match options1 as pack {
-        00 : BodyLength,
-    },
-    @calculatedFrom(""a	b"")
-    asx Z9_ ``,
-    @rightPad()
-    u32 calculatedFrom @lengthOf(asx) `doc`,
-    @calculatedFrom(""" ++ [28040; 24687]%N ++ runes_of_ascii """)
-    uint8x,
-    repeat zchar[007] u128,
-    stringy {
-        repeat zchar[3] A,
-        repeat i64 o ``,
-        f32 packetx @calculatedFrom(""\" ++ [233]%N ++ runes_of_ascii """),
-        packetx charz,
-    },
-    match int as Z9_ {
-        ""a\\"" : crc,
-        """" : trueish,
-        [00, 4294967296, ""\" ++ [233]%N ++ runes_of_ascii """] : Packet,
-    },
-    /// triple
-    // packet A { u8 x, }
-    u8 msg_type @lengthOf(i64_),
-}
-
-root packet A {
-    BodyLength @lengthOf(stringy),
-    rootA As,
-    repeat BodyLength options1 `a\`,
-}")).
-Eval vm_compute in ("<<<M4474>>>" ++ check (runes_of_ascii "  // top
-  options 	 // c0
-{	// c1
-chars 	 // c2
-	= // c3
-  ""a\\"" // c4
-} // c5
-    packet  // c6
-		Z9_ 	 // c7
-  	{ 	 // c8
-  match 	 // c9
-	BodyLength	// c10
-	  as// c11
-    roots// c12
-	  {  // c13
-	""" ++ [28040; 24687]%N ++ runes_of_ascii """ // c14
-  : 	 // c15
-      falsey // c16
-
-, 	 // c17
-      00 	 // c18
-:  // c19
-u128	// c20
-	  0 	 // c21
-	: // c22
-
-len // c23
-	,  // c24
-  007  // c25
-: 	 // c26
-f32a  // c27
-    } // c28
-	, 	 // c29
-  @tag( // c30
-
-3  // c31
-      )// c32
-  @calculatedFrom( 	 // c33
-
-	""`tick`""  // c34
-
-)// c35
-@leftPad// c36
-		( // c37
-	' '// c38
-  )// c39
-
-string	// c40
-
-  asx// c41
-	  ,	// c42
-  string // c43
-u  // c44
-@lengthOf( 	 // c45
-		options1 	 // c46
-	) 	 // c47
-
-,  // c48
-float32// c49
-	i64_// c50
-
-	@calculatedFrom( // c51
-      ""a\""b""	// c52
-)// c53
-
-,// c54
-	}// c55
-")).
-Eval vm_compute in ("<<<M3937>>>" ++ check (runes_of_ascii "packet o {
-    repeat char[65535] rootA,
-}
-
-packet repeatCount {
-    @tag(10)
-    @lengthOf(_x)
-    repeat int64 f32a `" ++ [233]%N ++ runes_of_ascii "`,
-    @leftPad('0')
-    @leftPad(' ')
-    @tag(3)
-    // trailing space 
-    o `doc`,
-    @calculatedFrom("""")
-    string o,
-    @lengthOf(msg_type)
-    match A as T {
-        [
-            1, 10, 3, ""packet"", ""a\\"",
-            ""x y""
-        ] : leftPad,
-        ""packet"" : calculatedFrom,
-        //	t
-        [255] : o,
-        42 : int,
-    },
-    Z9_ float `a\`,
-    char[] u,
-    @lengthOf(i64_)
-    string A @lengthOf(int) `it's`,
-    @rightPad('0')
-    roots {
-        pack @lengthOf(As) `crlf
-        line`,// c
-        zchar[00] zchar @lengthOf(u8x),
-    },
-    @tag(0)
-    @rightPad()
-    @calculatedFrom(""" ++ [128512]%N ++ runes_of_ascii """)
-    f32a lengthOf `{ , }`,
-}")).
-Eval vm_compute in ("<<<M395>>>" ++ check (runes_of_ascii "root packet x { f32
-uint8x @calculatedFrom(""it's"" ) , @calculatedFrom(""CRC32"" ) uint8x
-// packet A { u8 x, }
-// c
-`line1
-line2`,match
-    // packet A { u8 x, }
-    uint8x as falsey { 0	:
-    chars """ ++ [128512]%N ++ runes_of_ascii """// packet A { u8 x, }
-: roots
-, 0123456789 : stringy ,""x y""
-    : Logon
-, } ,  } packet	metadata {  match calculatedFrom as repeatCount // c
-{
-""it's"" : calculatedFrom 4294967296
-    : int,	} ,
-    string packetx
-    ,
-match T // " ++ [128512]%N ++ runes_of_ascii " emoji
-as pack {
-// `tick` ""quote"" 'q'
-// packet A { u8 x, }
-""it's"":
-    //
-    Z9_
-, 00:Packet	,
-"""" : leftPad , [ 65535]  : pack, }
-,
-    }
-    // " ++ [128512]%N ++ runes_of_ascii " emoji
-    MetaData zchar	{Logon uint8x `" ++ [233]%N ++ runes_of_ascii "` ,
-stringy leftPad , char[] // packet A { u8 x, }
-As `" ++ [28040; 24687; 31867; 22411]%N ++ runes_of_ascii "`
-    ,_x trueish  `two words` , u8 o`
-`, } 	 ")).
-Eval vm_compute in ("<<<M429>>>" ++ check (runes_of_ascii "options
-    { Header
-    //
-    =
-    7 // trailing space 
-;
-Z9_ =true
-//
-// trailing space 
-;  f32a = false Packet
-    // c
-    = true
-    ; }
-packet matchKey { char[] Foo
-`crlf
-line` ,
-}
-    packet // " ++ [27880; 37322]%N ++ runes_of_ascii "
-Pad{ repeat  char[ 7]crc , calculatedFrom , @leftPad
-    ()
-//x
 // " ++ [128512]%N ++ runes_of_ascii " emoji
-i16 BodyLength
-, @tag(// @lengthOf(
-42 // packet A { u8 x, }
-) match rootA  as uint8x {""a	b"" :	As, }
-,
-    @calculatedFrom( """"
-    ) repeat x`" ++ [233]%N ++ runes_of_ascii "`	,  @tag(
-007 )
-    Packet Pad,
-uint64
-u8x`tab	here` ,
-    asx {packetx MetaDataX
-,
-repeat _x{ asx
-{ string rootA `line1
-line2` , // a // b
-}
-, } ,
-} // " ++ [128512]%N ++ runes_of_ascii " emoji
-, @tag( 007
-    ) i64
-i64_ ,// " ++ [27880; 37322]%N ++ runes_of_ascii "
-@lengthOf(
-    Z9_
-    ) char[] asx @lengthOf( body )
+packet  repeatCount	{
+@tag( 7
+    // `tick` ""quote"" 'q'
+    )
+char[] x_y_z //x
+`it's` , @calculatedFrom(""`tick`"" )repeat o,
+    @lengthOf(
+    pack )
+@lengthOf( u128 ) @lengthOf(stringy	)
+match zchar as MetaDataX { [ ""// no comment"",0 ] // " ++ [27880; 37322]%N ++ runes_of_ascii "
+: options1
     ,
+    [
+    ""a	b"" ,
+""`tick`""
+    ,""" ++ [233]%N ++ runes_of_ascii "t" ++ [233]%N ++ runes_of_ascii """, 7
+    // trailing space 
+    , 0123456789
+] :	string_
+    , ""a\""b"" :len, ""a\\"" : MetaDataX	, }, u8x
+{ repeat
+chars MetaDataX
+`two words`, repeat Header	len `` , pack { u16
+asx @calculatedFrom(
+    ""`tick`"")
+    //x
+    `line1
+line2` , f64 string_ ,float32 zchar // " ++ [27880; 37322]%N ++ runes_of_ascii "
+@lengthOf(i8i8 )
+, As @lengthOf(
+    //	t
+    _x ) `u8 x,`, } ,int32 roots`doc` , }
+    , } packet As { @lengthOf( leftPad )
+@calculatedFrom(	"""" ) x_y_z
+@lengthOf(
+    i8i8 )	`" ++ [233]%N ++ runes_of_ascii "` , repeat float32 Z9_
+    //	t
+    ,// `tick` ""quote"" 'q'
+pack ,
+    msg_type
+, // `tick` ""quote"" 'q'
+@rightPad // a // b
+(
+'0' )
+// a // b
+// @lengthOf(
+u16 crc ,
+    @lengthOf( chars)	repeat
+x`it's`
+, } packet body/// triple
+{@calculatedFrom(  """ ++ [28040; 24687]%N ++ runes_of_ascii """ ) T @lengthOf(
+    u8x ) , @tag( 3)
+    // packet A { u8 x, }
+    u32
+    u
+//	t
+// @lengthOf(
+@lengthOf(
+    msg_type
+    // c
+    )
+    , @calculatedFrom(
+""" ++ [128512]%N ++ runes_of_ascii """
+)	repeat char[ 10] A // c
+, x{ string o
+, match  Pad // " ++ [27880; 37322]%N ++ runes_of_ascii "
+as rootA { ""packet"" :matchKey } ,u64
+x_y_z ,char[]
+leftPad @lengthOf( float // @lengthOf(
+)
+    , /// triple
+}
+,
+    repeat uint8x falsey	`" ++ [233]%N ++ runes_of_ascii "`, @lengthOf( Z9_ )u8 f32a , @tag( 0123456789 )
+// @lengthOf(
+// `tick` ""quote"" 'q'
+u8 matchKey ``
+, Pad trueish `say ""hi""`
+    ,}
+")).
+Eval vm_compute in ("<<<M948>>>" ++ check (runes_of_ascii "//
+root packet
+    T
+    { match Foo as Packet {
+""\n"":
+// c
+// a // b
+roots""abc"": Foo ,3 : packetx,
+}, match Z9_ as u8x { 65535 :
+tag , }	, Pad{
+i16 BodyLength ,
+    stringy
+    chars, uint8 trueish
+    /// triple
+    ,
+} ,	pack {
+    match//	t
+asx
+as
+stringy { 0 :matchKey } // " ++ [128512]%N ++ runes_of_ascii " emoji
+,	repeat
+char uint8x
+, }
+// @lengthOf(
+//
+,
+    @calculatedFrom( ""\n"")
+    body,
+_x , string tag , char[ // packet A { u8 x, }
+3 ]rootA`a\`
+    // c
+    ,
+@calculatedFrom(""\n"" )
+@lengthOf( uint8x
+    ) char[] A , i8
+    // @lengthOf(
+    string_`{ , }` ,
+    // packet A { u8 x, }
+    } packet body {
+    char[] o	, string options1 ,
+repeat // a // b
+char[]
+    pack, u128{ packetx options1
+    ,
+repeat
+Packet
+,repeat // trailing space 
+int `` // " ++ [27880; 37322]%N ++ runes_of_ascii "
+, u16
+Logon	,	} ,  match
+    T as x_y_z {
+    255 : Header ,
+    1 :
+    f32a , """ ++ [128512]%N ++ runes_of_ascii """
+:	Pad
+// a // b
+// a // b
+""abc"" :
+    /// triple
+    A } ,	@tag(// " ++ [27880; 37322]%N ++ runes_of_ascii "
+00
+// " ++ [128512]%N ++ runes_of_ascii " emoji
+// @lengthOf(
+) int8 i8i8 @calculatedFrom( """ ++ [28040; 24687]%N ++ runes_of_ascii """) `tab	here`, @lengthOf(
+    matchKey )
+repeat uint16
+// a // b
+// trailing space 
+roots `doc`
+    ,f64 a1 ,@lengthOf( metadata
+    // " ++ [27880; 37322]%N ++ runes_of_ascii "
+    )
+    // @lengthOf(
+    Foo
+@lengthOf(
+msg_type )	`" ++ [233]%N ++ runes_of_ascii "` , } packet /// triple
+tag{@rightPad
+( '0' )char[]
+    x
+    @calculatedFrom(
+    ""a\\"")
+    ,
+    float  @calculatedFrom( ""\" ++ [233]%N ++ runes_of_ascii """  ) `
+`// " ++ [27880; 37322]%N ++ runes_of_ascii "
+,
+@calculatedFrom(
+    ""{,}"" ) repeat zchar[ 00 ]
+    i64_  `" ++ [28040; 24687; 31867; 22411]%N ++ runes_of_ascii "`
+,
+char[ 007
+    ] charz ,
+    } packet metadata {
+    string_ {
+    repeat A
+    , repeat char[// trailing space 
+00
+] A// " ++ [128512]%N ++ runes_of_ascii " emoji
+, i32 i64_ @lengthOf( body )  `" ++ [233]%N ++ runes_of_ascii "`
+    , //x
+repeat
+    //x
+    zchar `say ""hi""` ,} ,
+}")).
+Eval vm_compute in ("<<<M4195>>>" ++ check (runes_of_ascii "packet o {
+    @tag(0)
+    match leftPad as metadata {
+        1 : calculatedFrom,
+        7 : i64_,
+        ""it's"" : i64_,
+        0123456789 : repeatCount,
+        0 : Foo,
+    },
+    lengthOf {
+        A `doc`,
+    },
+    char[3] matchKey `{ , }`,
+    leftPad {
+        repeat u8 options1,
+        body @calculatedFrom(""" ++ [128512]%N ++ runes_of_ascii """),
+        zchar {
+            // `tick` ""quote"" 'q'
+            u64 Logon @lengthOf(u8x),
+            char[007] packetx @lengthOf(zchar) `
+            `,
+        },
+        repeat metadata x,
+    },
+    u32 repeatCount,
+    @tag(10)
+    @lengthOf(T)
+    u16 repeatCount `say ""hi""`,/// triple
+    repeat u128 {
+        //
+        // packet A { u8 x, }
+        zchar[4294967296] BodyLength,
+    },
+    i32 x `doc`,
 }
 
+packet MetaDataX {
+    // a // b
+    @tag(7)
+    repeat lengthOf,
+}
+
+root packet As {
+    @lengthOf(lengthOf)
+    match _x as T {
+        ""packet"" : string_,
+        3 : BodyLength,
+        """ ++ [128512]%N ++ runes_of_ascii """ : i64_,
+        0 : lengthOf,
+        /// triple
+        7 : Logon,
+    },
+    Z9_ @calculatedFrom(""\" ++ [233]%N ++ runes_of_ascii """),
+    float32 int @lengthOf(msg_type) `// not a comment`,
+    char[] A @calculatedFrom(""\n""),
+    @tag(4294967296)
+    i8i8 {
+        uint32 u8x,
+    },
+    zchar[00] uint8x,
+    repeat msg_type string_,
+    repeat zchar[007] Pad `doc`,
+    match rootA as stringy {
+        007 : leftPad,
+        [""" ++ [233]%N ++ runes_of_ascii "t" ++ [233]%N ++ runes_of_ascii """, 7] : x,
+    },
+}")).
+Eval vm_compute in ("<<<M1283>>>" ++ check (runes_of_ascii "packet
+u
+{ float64 A @calculatedFrom(
+    // @lengthOf(
+    ""it's"" // packet A { u8 x, }
+) ,  string roots  , @rightPad (// packet A { u8 x, }
+'\x00' ) char[]int @lengthOf( // a // b
+metadata ) , // trailing space 
+u8x {
+    int
+{  f64
+    Pad
+,asx{
+repeat tag `two words` ,rootA , u16 matchKey `
+` ,
+} , repeat
+roots { // @lengthOf(
+options1 @calculatedFrom( ""a\""b"" // " ++ [27880; 37322]%N ++ runes_of_ascii "
+)
+    ,
+char[]
+    chars
+, } , float64 zchar ,
+    }
+    , // c
+} , uint16 leftPad, uint8 f32a @lengthOf( i8i8 ) , repeat
+float64 stringy
+, i8i8
+{roots@lengthOf( repeatCount ) , }
+    ,
+repeat matchKey	, @leftPad	(' ' ) match	int // @lengthOf(
+as trueish{
+    """": a1
+    ,00 : a1,
+1 : crc , }
+,
+    // trailing space 
+    } root
+    packet f32a
+    // trailing space 
+    {@tag(0 ) // " ++ [27880; 37322]%N ++ runes_of_ascii "
+zchar[ 4294967296 ]
+tag
+    , @tag(
+    4294967296
+) match	uint8x  as calculatedFrom {	""""  :BodyLength""a\\"" : MetaDataX, """ ++ [233]%N ++ runes_of_ascii "t" ++ [233]%N ++ runes_of_ascii """ : u128,
+    } /// triple
+,
+    } options {
+x = i8 x =
+' '
+    x_y_z='\x00'zchar=	""" ++ [128512]%N ++ runes_of_ascii """// c
+;
+BodyLength = float32
+    ; }
+// packet A { u8 x, }
+//
+root packet
+    Packet { }
+MetaData // a // b
+roots { zchar u8x /// triple
+`
+` ,// trailing space 
+char[ 42 //x
+]	uint8x ,
+//
+// " ++ [128512]%N ++ runes_of_ascii " emoji
+asx lengthOf`// not a comment` ,
+Packet stringy
+, repeatCount len``
+, } // c")).
+Eval vm_compute in ("<<<M4417>>>" ++ check (runes_of_ascii "packet i8i8 {
+    @lengthOf(body)
+    // trailing space 
+    // " ++ [128512]%N ++ runes_of_ascii " emoji
+    @lengthOf(T)
+    calculatedFrom @calculatedFrom(""""),
+    uint32 x `crlf
+        line`,
+    uint64 string_ `{ , }`,
+    i64 _x @calculatedFrom(""a	b"") `doc`,
+    @lengthOf(len)
+    asx `doc`,
+    charz `two words`,
+}
+
+packet u {
+    @rightPad()
+    repeat u128 u8x,// trailing space 
+    float64 stringy @calculatedFrom(""" ++ [128512]%N ++ runes_of_ascii """) `crlf
+        line`,
+    @rightPad()
+    @tag(10)
+    repeat options1 `crlf
+        line`,
+    zchar[0] i8i8,
+    int16 matchKey @calculatedFrom(""CRC32""),
+}
+
+packet string_ {
+    zchar @calculatedFrom(""packet""),
+    repeat asx chars `tab	here`,
+}
+
+packet falsey {
+    body BodyLength `two words`,
+    match Z9_ as lengthOf {
+        4294967296 : roots,
+        // " ++ [27880; 37322]%N ++ runes_of_ascii "
+    },
+    char[3] asx `crlf
+        line`,
+}
+
+root packet float {
+    repeat i8i8,
+    @lengthOf(options1)
+    roots roots,
+    repeat zchar[1] pack,
+    i64_,
+    falsey ``,
+    match options1 as x_y_z {
+        0 : int,
+    },
+    zchar[007] A @calculatedFrom(""a	b""),
+    trueish {
+        repeat char[] i8i8 `doc`,
+    },
+    i8i8 `
+        `,
+    uint8 roots `two words`,
+}")).
+Eval vm_compute in ("<<<M610>>>" ++ check (runes_of_ascii "
+packet  Packet { }
+// @lengthOf(
+// packet A { u8 x, }
+packet f32a{ f32 zchar @calculatedFrom( ""\n"" ) ,
+match
+    float
+    as
+stringy { ""1"" :
+    options1
+""x y"" : pack
+, [
+// " ++ [27880; 37322]%N ++ runes_of_ascii "
+//	t
+""`tick`""
+,
+""a\""b"",
+""// no comment"" ,
+// @lengthOf(
+/// triple
+7,
+""1"" ] : leftPad , 007	:
+    Packet""" ++ [28040; 24687]%N ++ runes_of_ascii """/// triple
+:
+    x_y_z
+    , //x
+},
+@rightPad (
+)
+repeat zchar[ 255] u8x`it's` // " ++ [27880; 37322]%N ++ runes_of_ascii "
+, @calculatedFrom(  ""abc"" // @lengthOf(
+) match	float as uint8x { ""\n"" :len , [1 ]
+: crc[
+    ""packet"" , 0123456789
+, ""\n""
+    // trailing space 
+    ] : asx , """": calculatedFrom
+""\" ++ [233]%N ++ runes_of_ascii """ :
+    roots,
+    } ,	trueish
+    , @lengthOf(
+    i8i8
+)string// @lengthOf(
+body `doc`, @lengthOf(
+    // a // b
+    o ) u32 u , @leftPad
+    (	'0' ) match	zchar	as lengthOf {// `tick` ""quote"" 'q'
+007 // trailing space 
+:  leftPad , } , }packet BodyLength{ a1
+{	repeat
+    char[] calculatedFrom , }
+    , @calculatedFrom(  ""1"" ) repeat
+roots `" ++ [233]%N ++ runes_of_ascii "`,
+@lengthOf( u128 )
+    _x  , match a1 as Logon
+    { 1: len , // a // b
+} ,
+@calculatedFrom(""packet"" ) charz x `tab	here`
+,
+    i64
+    matchKey ,
+//x
+/// triple
+}")).
+Eval vm_compute in ("<<<M4515>>>" ++ check (runes_of_ascii "packet charz {
+    zchar @lengthOf(body),
+    string BodyLength ``,
+    float `" ++ [233]%N ++ runes_of_ascii "`,
+    @lengthOf(len)
+    @tag(255)
+    @calculatedFrom(""{,}"")
+    a1 int `two words`,
+    char[3] float @calculatedFrom(""CRC32""),
+    repeat int32 stringy,//
+    @tag(3)
+    @tag(3)
+    a1 {
+        match chars as roots {
+            ""it's"" : o,
+            ""CRC32"" : stringy,
+            0123456789 : Pad,
+            [""a	b"", """ ++ [128512]%N ++ runes_of_ascii """] : body,
+        },
+        char[42] u8x,
+        char[255] x_y_z @calculatedFrom(""packet""),
+        match body as BodyLength {
+            10 : zchar,
+            007 : uint8x,
+            ""a\""b"" : Header,
+            ""x y"" : chars,
+            007 : f32a,
+        },
+    },
+    match T as stringy {
+        10 : float,
+        // trailing space 
+        0 : string_,
+        10 : crc,
+        7 : chars,
+        7 : body,
+    },
+    repeat crc `
+    `,
+}
+
+MetaData roots {
+    char[] string_ `{ , }`,
+}
+
+root packet As {
+    @rightPad(' ')
+    i64 leftPad @calculatedFrom(""abc"") `doc`,
+    char[] options1,
+}")).
+Eval vm_compute in ("<<<M502>>>" ++ check (runes_of_ascii "  root packet  roots { @tag(
+    0123456789) repeat As msg_type ,
+    roots
+@calculatedFrom(	""abc""),@rightPad (
+)// " ++ [27880; 37322]%N ++ runes_of_ascii "
+Pad {  int32
+rootA@calculatedFrom(// c
+""1"" )
+, repeat int
+    float `say ""hi""`
+    ,// c
+zchar[
+    65535 ]  i8i8 @calculatedFrom(""a\\""	)// c
+,
+    } , // `tick` ""quote"" 'q'
+@calculatedFrom(
+    ""1"" // `tick` ""quote"" 'q'
+)
+i8i8 @lengthOf( x),@tag(7 )
+    match T as repeatCount
+{ ""a\\"" :
+o [//
+""""
+, // @lengthOf(
+""it's""
+]	:
+    i64_ , 10 :
+    trueish , }// @lengthOf(
+,
+    Z9_
+, // a // b
+@calculatedFrom(
+"""" ) @leftPad  (' ' )  f32 zchar @lengthOf( charz ) , @leftPad
+// " ++ [27880; 37322]%N ++ runes_of_ascii "
+// c
+(
+    ) falsey @lengthOf(
+BodyLength )
+    ,
+// a // b
+// " ++ [27880; 37322]%N ++ runes_of_ascii "
+} packet
+    leftPad { // trailing space 
+u8 //x
+msg_type@calculatedFrom(""packet"")
+`u8 x,`
+    , @lengthOf( chars ) char[]  Packet
+, //
+@leftPad
+('0' ) int64 As ,
+    char[]  Packet
+// packet A { u8 x, }
+//
+, // a // b
+@calculatedFrom(  ""\n"" ) x @calculatedFrom( ""\n""
+    ) , // `tick` ""quote"" 'q'
+}")).
+Eval vm_compute in ("<<<M3644>>>" ++ check (runes_of_ascii "
+root 
+	//
+// `tick` ""quote"" 'q'
+    packet
+lengthOf	{
+
+repeat 
+char[]  asx	`// not a comment`// trailing space 
+	,
+    lengthOf  {
+string
+options1
+,  char[] A @calculatedFrom(	""\n""
+) , int16
+trueish
+    , },
+repeat  int16
+	stringy ,
+	string 
+Logon`{ , }`  , @lengthOf( 
+metadata
+
+    )
+
+    match
+	trueish as
+Foo 
+{  00  :	T
+    ,	7	:
+Z9_
+
+    , }, 
+string_
+	a1
+`" ++ [28040; 24687; 31867; 22411]%N ++ runes_of_ascii "` // packet A { u8 x, }
+
+	,  } 
+packet zchar {
+@calculatedFrom( ""x y""	//x
+
+  )
+	repeatCount
+`
+` ,  match
+    //
+  	stringy 
+as
+
+    u {  255	// `tick` ""quote"" 'q'
+:
+charz }  ,	zchar[ 0123456789
+]
+	    // a // b
+    Z9_ @lengthOf( crc
+    )`it's`
+, @leftPad 
+('\x00'	) 
+zchar[
+0 
+]
+	rootA@calculatedFrom(""CRC32""),@lengthOf( leftPad	)
+// packet A { u8 x, }
+    Foo @calculatedFrom( ""{,}""
+	) ,
+uint32
+    Foo `// not a comment`
+    ,	f32
+
+    float
+
+    ,
+repeat matchKey ,
+    Logon @lengthOf( rootA
+	)
+    `" ++ [28040; 24687; 31867; 22411]%N ++ runes_of_ascii "`
+    ,
+}
 ")).
-Eval vm_compute in ("<<<M3263>>>" ++ check (runes_of_ascii "// top
+Eval vm_compute in ("<<<M3568>>>" ++ check (runes_of_ascii "
+// top
+options// c0
+      {
+// c1
+chars 	 // c2a
+  	// c2b
+	= ""a\\"" 	 // c4a
+
+// c4b
+  } 	 // c5a
+  // c5b
+  packet 
+    // c6
+		Z9_	// c7a
+	// c7b
+{// c8a
+// c8b
+
+  match  // c9
+    	BodyLength 
+    // c10
+
+as
+
+    roots
+// c12
+      { 
+""" ++ [28040; 24687]%N ++ runes_of_ascii """ 	 // c14a
+      // c14b
+
+:falsey 
+
+    // c16
+, 
+      // c17
+
+00
+	    // c18
+    :	u128// c20a
+
+// c20b
+    0 
+// c21
+	: 
+    // c22
+	len,  // c24a
+    // c24b
+	007// c25
+: 
+      // c26
+    f32a}
+
+    // c28
+    	, @tag( 
+        // c30
+
+	3 // c31
+    )
+@calculatedFrom(// c33
+
+""`tick`""
+// c34
+
+	)  @leftPad  ( 
+// c37
+
+	' '	)  // c39
+  	string  // c40
+  asx	// c41
+    , 	 // c42a
+      // c42b
+
+	string  // c43a
+    // c43b
+  u @lengthOf( 
+options1 ) 	 // c47a
+	// c47b
+	,
+	float32	// c49a
+    // c49b
+i64_@calculatedFrom(
+
+    ""a\""b"" // c52a
+  // c52b
+  	) // c53
+	  , // c54
+  } 	 // c55
+")).
+Eval vm_compute in ("<<<M826>>>" ++ check (runes_of_ascii "packet i8i8
+{
+    @leftPad
+    // c
+    (// " ++ [128512]%N ++ runes_of_ascii " emoji
+'0'
+    // @lengthOf(
+    ) i16 int ,@calculatedFrom( ""\n"" ) crc @calculatedFrom(""abc"" //	t
+) ,
+    // packet A { u8 x, }
+    int16 trueish `it's`  , // trailing space 
+@rightPad (' ' )@tag(
+3 ) @calculatedFrom( """" ) pack
+{ i64_ falsey  ,
+i8i8  repeatCount , repeat u16 pack  , u128
+//x
+// " ++ [27880; 37322]%N ++ runes_of_ascii "
+@calculatedFrom( ""it's""
+    ) `" ++ [233]%N ++ runes_of_ascii "`
+, },
+@calculatedFrom( ""1"")
+match i64_ as a1{ 42
+:MetaDataX,[ ""{,}"",""abc""
+    , ""`tick`"",
+10
+    ]
+    : asx ,//
+65535
+: string_ }//x
+, @calculatedFrom(	""" ++ [128512]%N ++ runes_of_ascii """ )  @lengthOf( _x ) @rightPad ( ' '
+    ) x
+    {// packet A { u8 x, }
+f32 tag
+    @lengthOf(	calculatedFrom) ,	u32 Logon
+    `" ++ [28040; 24687; 31867; 22411]%N ++ runes_of_ascii "`, } , @lengthOf( // " ++ [128512]%N ++ runes_of_ascii " emoji
+zchar ) Packet matchKey ,@leftPad/// triple
+( '0') f32 charz
+`
+`//x
+, @rightPad
+    ('0'
+) char[3 ] stringy `tab	here`
+, }")).
+Eval vm_compute in ("<<<M1167>>>" ++ check (runes_of_ascii "packet a1 {
+@tag(
+    007 )
+    match packetx as a1 { [	0123456789,  0123456789 ]
+: tag , ""\n"" : uint8x
+, 00 : Z9_ ,""\" ++ [233]%N ++ runes_of_ascii """  :i64_ [ ""// no comment""
+    , ""`tick`"" ]
+: asx ,
+    } , //
+} options {crc='0' Logon
+=
+""""
+;
+    // packet A { u8 x, }
+    falsey = 4294967296 // trailing space 
+; }
+    packet	string_
+    {
+repeat leftPad { repeat  uint64 x , u8 uint8x `u8 x,` ,	} ,repeat tag options1// packet A { u8 x, }
+,// trailing space 
+int64 /// triple
+trueish
+    @lengthOf( asx )`
+`
+// trailing space 
+//
+,
+    // c
+    match i8i8 as MetaDataX {
+""a\\"" :
+    //x
+    falsey
+    , }, repeat char[ 1 ]
+    As
+    , zchar[42 ]	Pad@lengthOf(
+    repeatCount ) ,
+@leftPad ( '\x00' /// triple
+)
+uint64 string_ `say ""hi""` , @calculatedFrom( ""CRC32""
+) char MetaDataX , // packet A { u8 x, }
+}")).
+Eval vm_compute in ("<<<M1313>>>" ++ check (runes_of_ascii "
+options { trueish =
+    4294967296 ; } root packet float { } packet Header{
+repeat Logon , @tag(
+    0123456789 )  uint8 asx  `say ""hi""` ,int@calculatedFrom( ""a	b"") // " ++ [27880; 37322]%N ++ runes_of_ascii "
+,
+repeat
+    Logon , } packet i64_{ /// triple
+repeat
+char[ 0123456789 ]
+metadata
+`u8 x,`,
+repeat
+f32
+    Packet , repeat crc {	int16 // trailing space 
+body
+    `" ++ [28040; 24687; 31867; 22411]%N ++ runes_of_ascii "` , int32 stringy,
+    // @lengthOf(
+    repeat char[ 65535
+]
+    // " ++ [128512]%N ++ runes_of_ascii " emoji
+    int ,
+    u64 zchar
+// " ++ [27880; 37322]%N ++ runes_of_ascii "
+// " ++ [128512]%N ++ runes_of_ascii " emoji
+, } , @rightPad
+    (	'\x00'  )	@calculatedFrom( ""abc"" )@rightPad ( ' '	)rootA o	, repeat string// a // b
+msg_type,
+//x
+/// triple
+char[
+3
+// `tick` ""quote"" 'q'
+/// triple
+]
+i8i8 `two words`
+//	t
+// trailing space 
+,@calculatedFrom( ""// no comment""	) /// triple
+f32a@lengthOf( Z9_) ,	}
+")).
+Eval vm_compute in ("<<<M3265>>>" ++ check (runes_of_ascii "// top
 options // c0
-{ // c1
-chars // c2
-= // c3
-""a\\"" // c4
-} // c5
-packet // c6
-Z9_ // c7
-{ // c8
+{
+    // c1
+chars // c2a
+  // c2b
+= ""a\\"" // c4a
+  // c4b
+} // c5a
+  // c5b
+packet
+    // c6
+Z9_ // c7a
+  // c7b
+{ // c8a
+  // c8b
 match // c9
-BodyLength // c10
-as // c11
-roots // c12
-{ // c13
-""" ++ [28040; 24687]%N ++ runes_of_ascii """ // c14
-: // c15
-falsey // c16
-, // c17
-00 // c18
-: // c19
-u128 // c20
-0 // c21
-: // c22
-len // c23
-, // c24
+BodyLength
+    // c10
+as roots
+    // c12
+{ """ ++ [28040; 24687]%N ++ runes_of_ascii """ // c14a
+  // c14b
+: falsey
+    // c16
+,
+    // c17
+00
+    // c18
+: u128 // c20a
+  // c20b
+0
+    // c21
+:
+    // c22
+len , // c24a
+  // c24b
 007 // c25
-: // c26
-f32a // c27
-} // c28
-, // c29
-@tag( // c30
+:
+    // c26
+f32a }
+    // c28
+, @tag(
+    // c30
 3 // c31
-) // c32
-@calculatedFrom( // c33
-""`tick`"" // c34
-) // c35
-@leftPad // c36
-( // c37
-' ' // c38
-) // c39
+) @calculatedFrom( // c33
+""`tick`""
+    // c34
+) @leftPad (
+    // c37
+' ' ) // c39
 string // c40
 asx // c41
-, // c42
-string // c43
-u // c44
-@lengthOf( // c45
-options1 // c46
-) // c47
-, // c48
-float32 // c49
-i64_ // c50
-@calculatedFrom( // c51
-""a\""b"" // c52
+, // c42a
+  // c42b
+string // c43a
+  // c43b
+u @lengthOf( options1 ) // c47a
+  // c47b
+, float32 // c49a
+  // c49b
+i64_ @calculatedFrom( ""a\""b"" // c52a
+  // c52b
 ) // c53
 , // c54
 } // c55
 ")).
-Eval vm_compute in ("<<<M3711>>>" ++ check (runes_of_ascii "
-packet
+Eval vm_compute in ("<<<M4448>>>" ++ check (runes_of_ascii "// " ++ [27880; 37322]%N ++ runes_of_ascii "
+  	packet leftPad {  // a // b
+	string
+As`{ , }` ,
+char[ 42]msg_type 
+,
+    @lengthOf( i8i8
+	)
+match Foo as
 
-    A	// c1a
+    matchKey 	 //	t
+	{1
 
-// c1b
-	{ 
+    :chars  ,
+65535
+:
+o
+    7
+:
+    calculatedFrom, [  65535
+    ,
+7 
+,""a	b""] :	int 
+, [
+00 ,
+	0, ""x y""
+    ,
 
-    // c2
-  u8	// c3a
-  // c3b
-a 
-// c4
-  , 
-    // c5
-		} 	 // c6a
-// c6b
-  	packet
-    // c7
-	B // c8
-	{
-    // c9
-  u16
-    // c10
+65535//	t
 
-b // c11a
-
-  // c11b
-  , }
-root  
-  // c14
-packet
-	P 
-// c16
-{// c17
-  u8
-    K
-
-, 	 // c20
-
-match
-// c21
-
-	K// c22
-
-  as  // c23
-	M 
-	    // c24
-{ 
-    // c25
-
-  [ 
-	    // c26
-	1 // c27a
-	// c27b
-
-	, 2 ] 	 // c30
-	:
-
-    // c31
-A 
-    // c32
-, 	 // c33a
-// c33b
-
-3
-	// c34
-  :  // c35a
-	// c35b
-B
-	,  // c37
-	7: // c39a
-    // c39b
-  	A  // c40
-      , 
-    // c41
-} 
-      // c42
-      ,  // c43a
-	// c43b
-		}
-    // c44")).
-Eval vm_compute in ("<<<M4428>>>" ++ check (runes_of_ascii "// packet A { u8 x, }
-MetaData f32a {
-    int64 i8i8,
-    u64 Packet ``,
-    falsey _x,
-    tag roots ``,
-    uint32 Foo `two words`,
-    char[] asx,
+, """ ++ [128512]%N ++ runes_of_ascii """ ,
+	007 ,""it's""
+,
+""""
+]:Packet ,
+	""""
+    :	float,
 }
 
-packet options1 {
-    char[00] u128,
-    @calculatedFrom(""`tick`"")
-    Header @calculatedFrom(""1""),
-    @leftPad()
-    match u as o {
-        [""a\\""] : stringy,
-        ""abc"" : f32a,
-    },
-    f64 x_y_z @lengthOf(o),
-    repeat char[00] int `
-        `,
-    char[] options1 `{ , }`,// `tick` ""quote"" 'q'
-    zchar[00] charz,
-    char[] MetaDataX `a\`,
-    match packetx as zchar {
-        [10, 1] : i8i8,
-        ""CRC32"" : Logon,
-    },
-}")).
-Eval vm_compute in ("<<<M4302>>>" ++ check (runes_of_ascii "packet T {
-    @calculatedFrom(""\" ++ [233]%N ++ runes_of_ascii """)
-    string f32a,
-    repeat f32 falsey,/// triple
-    @leftPad('0')
-    match repeatCount as repeatCount {
-        ""a	b"" : body,
-    },
-    x_y_z @lengthOf(trueish),
-    f64 crc,
-    @calculatedFrom(""x y"")
-    @tag(0)
-    @tag(65535)
-    int16 u128 @lengthOf(string_) `" ++ [233]%N ++ runes_of_ascii "`,
-    @calculatedFrom(""\n"")
-    char[0123456789] Foo @calculatedFrom(""CRC32""),
-    @calculatedFrom(""a\\"")
-    match T as msg_type {
-        [65535, 3, 255, 0, ""x y""] : T,
-        [3, 10, 65535, ""CRC32"", ""1""] : u,
-        4294967296 : a1,
-    },
-}")).
-Eval vm_compute in ("<<<M566>>>" ++ check (runes_of_ascii "packet rootA { } // " ++ [27880; 37322]%N ++ runes_of_ascii "
-packet MetaDataX
-    // packet A { u8 x, }
-    { @leftPad (	'0' )@calculatedFrom( ""`tick`"" ) pack @calculatedFrom( ""1""
-) ,f32a {
-a1 {lengthOf	{ repeat  uint8 charz	`crlf
-line` ,
-} , match roots	as
-    Packet {
-7 : Foo  , ""\" ++ [233]%N ++ runes_of_ascii """
-    // c
-    : metadata , ""a	b"" ://
-trueish
-// @lengthOf(
-//x
-, 0123456789 :
-Z9_,  [
-    4294967296 , ""packet""
-,
-"""" /// triple
-, 3 , """ ++ [233]%N ++ runes_of_ascii "t" ++ [233]%N ++ runes_of_ascii """ ] : pack
-    10 : a1, }	, u16 u128 // " ++ [128512]%N ++ runes_of_ascii " emoji
-`" ++ [28040; 24687; 31867; 22411]%N ++ runes_of_ascii "` , } ,}
-    ,zchar[ 00]
-_x @calculatedFrom( ""x y"" ) `doc`
-    ,  } packet
-pack { }
-")).
-Eval vm_compute in ("<<<M3969>>>" ++ check (runes_of_ascii "MetaData	uint8x { _x
-    stringy  , 
-i8i8	_x	, char[	1
-    ]
-a1
-`it's`
+    , u64
 
-    ,	crc
-metadata, 
-}packet
+    Logon
+	@calculatedFrom(
+    """ ++ [128512]%N ++ runes_of_ascii """ ),
 
-Logon{ 	 /// triple
-repeat	Logon stringy, 
-match
-falsey
-    as  T 	 /// triple
-  	{ [	1 ]:packetx 65535
-	:
+@calculatedFrom( ""a	b""
+	)
 pack
+    { float32
+charz`line1
+line2` // `tick` ""quote"" 'q'
+	, }
+	, 
+}
+	MetaData
+u128
 
-, [ """ ++ [28040; 24687]%N ++ runes_of_ascii """
-    ,  ""abc"" ]:
-    metadata 
-, 
-} // @lengthOf(
-    	,@calculatedFrom( ""x y"" 
-	    //	t
-//
-	  )  repeat
-	len
-{lengthOf
-	@calculatedFrom( ""`tick`""  ),	u8x	msg_type	, 
-} ,
-    @calculatedFrom(
-	""\n""
+    { repeatCount
+len`" ++ [233]%N ++ runes_of_ascii "`
+,  BodyLength	//x
+	charz ,
+	u8x
+trueish
+`a\`
+,  Header
+msg_type
+    `line1
+line2`
 
-    )
-repeat 
+,
+string
+
+stringy
+,	// " ++ [128512]%N ++ runes_of_ascii " emoji
+
+	char[] u128 `" ++ [233]%N ++ runes_of_ascii "` ,
+    }options{ } ")).
+Eval vm_compute in ("<<<M31>>>" ++ check (runes_of_ascii "packet options1
+    {@leftPad
+( )
+    @calculatedFrom( ""\n"" )
+    @leftPad (
+' ' // " ++ [27880; 37322]%N ++ runes_of_ascii "
+)
+chars
+T `say ""hi""` // " ++ [27880; 37322]%N ++ runes_of_ascii "
+,
     // @lengthOf(
-  i64
-
-    BodyLength
-    ,} ")).
-Eval vm_compute in ("<<<M1262>>>" ++ check (runes_of_ascii "packet MetaDataX {@tag( // @lengthOf(
-3  ) int16//	t
-Pad `line1
-line2`  ,
-    @lengthOf( i8i8 ) match u8x
-as Packet { 1: u128
-    , ""`tick`""
+    repeat zchar
+{  metadata {
+// @lengthOf(
+// c
+match A as x_y_z {""1"" :
+// " ++ [128512]%N ++ runes_of_ascii " emoji
+// c
+string_// @lengthOf(
+[""// no comment""  ,
+10 ] : Foo""a\\"": Packet [""a	b"",
+    65535 ]
+    :	x
+,
+}
+,
+} , } // " ++ [128512]%N ++ runes_of_ascii " emoji
+,
+@rightPad (
+) f32
+msg_type
+    , match f32a as body { [
+    ""`tick`"" , ""\n"" ,
+    ""a	b"" ,
+""{,}"" , 255 ,""x y"", 3
+]:// @lengthOf(
+x ,
+    ""CRC32""
+: zchar	, ""x y"" :
+rootA // `tick` ""quote"" 'q'
+[ 00
+    ,
+    ""it's""	, 4294967296 ,""CRC32"" ]:
+roots 4294967296 : Logon}, @leftPad
+('0')pack `crlf
+line`
+, }")).
+Eval vm_compute in ("<<<M872>>>" ++ check (runes_of_ascii "
+root // c
+packet len {
+Logon tag `say ""hi""`// c
+, uint16
+// packet A { u8 x, }
+// trailing space 
+Logon ,
+match packetx as Foo	{ 65535// trailing space 
+: asx
+, // @lengthOf(
+""abc"" //
+: x_y_z
+42 :asx} , f64
+trueish
+    ,  @lengthOf(a1 )repeat// " ++ [128512]%N ++ runes_of_ascii " emoji
+char[  4294967296
+]
+    uint8x `two words`
+,	match
+    calculatedFrom as string_ { 4294967296 : crc , ""abc"" :
+    T //	t
+,
+[ 255 ] : msg_type , // c
+}, match MetaDataX as
+len  { 10 : _x// c
+,
+} , match	float
+    as  Pad {
+    ""x y""
+:BodyLength ,
+[""a	b"" ,
+""x y"" ]  : chars
+, 0 : calculatedFrom//x
+, 0123456789
+: stringy
+,
+[ ""abc"" ]
+// c
+// " ++ [128512]%N ++ runes_of_ascii " emoji
 :
-matchKey, },@lengthOf(
-packetx ) zchar[ 4294967296 ] Z9_// @lengthOf(
-@calculatedFrom(
-    // a // b
-    ""abc""	)  , //	t
-@tag( 255)
-    int64
-i64_ @lengthOf( Packet )  , repeat uint8 u128
-    ,As metadata // @lengthOf(
-, @lengthOf(
-    asx	)
-@lengthOf(  A ) //	t
-@calculatedFrom( ""CRC32"") //
-u8 options1 `say ""hi""`
+i64_
     , }
+, }")).
+Eval vm_compute in ("<<<M730>>>" ++ check (runes_of_ascii "//x
+packet Packet
+{ } // " ++ [128512]%N ++ runes_of_ascii " emoji
+packet A { @calculatedFrom(
+    ""a	b""
+    ) @tag(
+    // `tick` ""quote"" 'q'
+    00 ) char[4294967296]u128 `` , } options {  lengthOf = """ ++ [233]%N ++ runes_of_ascii "t" ++ [233]%N ++ runes_of_ascii """
+    ; crc= ""CRC32"" ; }
+packet crc {
+    @tag(255 ) @rightPad ( ) repeat
+    //
+    Pad, zchar[ 3 ] charz @lengthOf( zchar
+)
+`say ""hi""` ,repeat Header string_ `` // @lengthOf(
+,
+len@calculatedFrom(
+    ""`tick`"") ,
+@tag( 65535 )
+    match chars
+as	msg_type {4294967296 : roots
+, """ ++ [233]%N ++ runes_of_ascii "t" ++ [233]%N ++ runes_of_ascii """ :_x ,
+""CRC32"" : leftPad	, // packet A { u8 x, }
+42: MetaDataX,
+// a // b
+// c
+[ ""a	b""]
+: i64_/// triple
+""`tick`"" :
+MetaDataX ,}
+,
+    }
 ")).
+Eval vm_compute in ("<<<M761>>>" ++ check (runes_of_ascii "packet packetx { @lengthOf( charz)lengthOf { u64	x_y_z @calculatedFrom( ""abc""
+)
+`tab	here` , }, char zchar @lengthOf(lengthOf
+    ) `two words`, chars Logon
+//
+// @lengthOf(
+`line1
+line2` ,match int	as u128 // " ++ [128512]%N ++ runes_of_ascii " emoji
+{
+1 : asx ,// a // b
+""CRC32"" : Header ,	}
+,
+string_
+,Header{ match u128 as
+    len {  [ 255
+    ,10
+    ,255 ,
+255 , 00 , ""x y""
+, // @lengthOf(
+""" ++ [28040; 24687]%N ++ runes_of_ascii """ ]: len ,[ ""{,}"", 1 ] : _x""1"": o ,
+    ""{,}""
+    //
+    : x ,
+007
+    : stringy
+    ,} // a // b
+, repeat f32a	{ stringy `
+` ,
+    } ,zchar[ 65535 ] charz ,
+    o  , // a // b
+} ,}
+")).
+Eval vm_compute in ("<<<M4275>>>" ++ check (runes_of_ascii "packet rootA {
+    string calculatedFrom @lengthOf(matchKey),
+}
+
+packet rootA {
+    // " ++ [27880; 37322]%N ++ runes_of_ascii "
+    //
+    repeat string string_,
+}
+
+packet x_y_z {
+    repeat string i64_ `two words`,
+    @leftPad()
+    repeat int64 Foo,
+    match chars as int {
+        """ ++ [28040; 24687]%N ++ runes_of_ascii """ : o,
+        /// triple
+        """ ++ [233]%N ++ runes_of_ascii "t" ++ [233]%N ++ runes_of_ascii """ : crc,
+        4294967296 : repeatCount,
+        [1] : As,
+        [
+            255, """ ++ [128512]%N ++ runes_of_ascii """, ""x y"", ""{,}"", 4294967296,
+            """", ""a\""b"", 00
+        ] : u128,
+        // " ++ [128512]%N ++ runes_of_ascii " emoji
+        ""\" ++ [233]%N ++ runes_of_ascii """ : lengthOf,
+    },
+    int64 uint8x,
+}")).
+Eval vm_compute in ("<<<M440>>>" ++ check (runes_of_ascii "packet chars	{
+@calculatedFrom(
+""abc"" ) repeat uint64
+Pad`" ++ [233]%N ++ runes_of_ascii "` ,
+    uint8  len , asx@lengthOf( _x) ,
+    options1 `tab	here` ,
+@lengthOf(  i64_
+) zchar`it's`
+, @tag( 007  )metadata
+,	char[]Foo ,
+    // packet A { u8 x, }
+    } // @lengthOf(
+options { charz = ""\" ++ [233]%N ++ runes_of_ascii """ ; metadata = string;Z9_ = ""it's""
+zchar = u8 }options{
+string_ =  """ ++ [28040; 24687]%N ++ runes_of_ascii """
+;msg_type // packet A { u8 x, }
+=42
+    ;Foo /// triple
+= 0123456789;
+o = int64 ;}	options{i8i8
+= zchar[ 1 ] Foo = 00;
+leftPad = // c
+uint64 Foo =  int64 }")).
+Eval vm_compute in ("<<<M3606>>>" ++ check (runes_of_ascii "
+packet float
+
+{
+	char[
+	00
+
+]
+	u8x	,
+	}	packet  // " ++ [128512]%N ++ runes_of_ascii " emoji
+	A	// @lengthOf(
+  { string i8i8
+, A 	 //x
+	@calculatedFrom( ""a	b""	) `a\`, 
+@tag(	1
+    )
+    chars	@lengthOf(
+Pad
+	)
+    `u8 x,` ,	/// triple
+		match
+
+repeatCount
+as
+    stringy  {
+42 :
+x 3
+: // @lengthOf(
+  tag
+	,[
+00
+	,
+0123456789 ]
+
+:
+
+    packetx  ,
+	[ 
+""" ++ [28040; 24687]%N ++ runes_of_ascii """
+,
+	""packet""
+] : string_,
+}  ,
+	}  options 	 // @lengthOf(
+  	{i8i8
+
+    = """ ++ [233]%N ++ runes_of_ascii "t" ++ [233]%N ++ runes_of_ascii """	Foo = false
+	// packet A { u8 x, }
+    ; Pad =' ' 
+; }")).
 Eval vm_compute in ("<<<M1366>>>" ++ check (runes_of_ascii "MetaData
 matchKey {}packet a1
     {char[]int`" ++ [28040; 24687; 31867; 22411]%N ++ runes_of_ascii "`	, msg_type @lengthOf( As// trailing space 
@@ -1259,953 +1310,1044 @@ uint16 uint8x@lengthOf( charz
 // c
 // `tick` ""quote"" 'q'
 ) `two words`	, }")).
-Eval vm_compute in ("<<<M598>>>" ++ check (runes_of_ascii "// a // b
-MetaData	options1 { //
-Z9_
-    calculatedFrom , } root packet Z9_{ int falsey `tab	here` ,	@lengthOf( a1
-) @tag(
-    007
-    // trailing space 
-    ) match trueish
-as string_ {""a\""b""
-:	Pad , ""`tick`"":a1
-, [ ""// no comment"" ,7,0 , // " ++ [128512]%N ++ runes_of_ascii " emoji
-0 , ""a\""b""
-, 10
-    , 4294967296 , 007 ] : packetx , [ 00 , // trailing space 
-""a\\""] :// c
-a1 ""CRC32""
-:
-    //
-    string_,
-    3
-    :uint8x,} , } packet //
-x_y_z{
-char//
-Logon , }
-")).
-Eval vm_compute in ("<<<M3434>>>" ++ check (runes_of_ascii "// top
-packet
-    // c0
-B // c1
+Eval vm_compute in ("<<<M382>>>" ++ check (runes_of_ascii "packet x { i64_ , } options // c
 {
-    // c2
-u8 a // c4a
+Logon =true
+//	t
+//	t
+} MetaData //x
+f32a { zchar[
+0123456789] string_ , i8i8 // @lengthOf(
+falsey ,
+u8x	string_ , zchar repeatCount `doc`, float64 zchar ,	} root
+    // c
+    packet
+Z9_ {	a1
+options1
+`u8 x,`	, char// `tick` ""quote"" 'q'
+BodyLength `// not a comment`
+    , @lengthOf( metadata )	repeat u`line1
+line2`  ,	@lengthOf(options1
+    ) @lengthOf( zchar )  @calculatedFrom( """ ++ [233]%N ++ runes_of_ascii "t" ++ [233]%N ++ runes_of_ascii """	)x
+u128
+,}
+")).
+Eval vm_compute in ("<<<M639>>>" ++ check (runes_of_ascii "options { A = 4294967296 body =0 tag = ""// no comment"";Packet =00
+    ;  }root packet leftPad { } root
+packet rootA { repeat
+charz {repeatCount{
+    a1 {repeat uint32 stringy	`` , } ,
+    /// triple
+    zchar[ 65535
+    // `tick` ""quote"" 'q'
+    ] tag
+, i64_/// triple
+metadata
+    ,
+a1 // " ++ [27880; 37322]%N ++ runes_of_ascii "
+{repeat zchar[	3
+    ]
+    Foo `two words` ,},
+    } // `tick` ""quote"" 'q'
+, string
+a1  @lengthOf( float )
+, }
+,
+    //x
+    }")).
+Eval vm_compute in ("<<<M3506>>>" ++ check (runes_of_ascii "  packet
+Frame
+{
+
+    u8
+
+HK
+,
+
+    u8	BK,	u8  TK
+
+    ,  match HK
+as  Hdr {
+
+    1 :
+HdrA
+
+    ,
+2
+:  HdrB
+	,  },match
+BK as Body{	1: BodyA,2 :
+BodyB  ,
+    } 
+, match TK
+as
+	Trl 
+{1 :	TrlA,	}
+    ,}
+	packet HdrA
+    {
+	u8
+
+a,
+	}packet	HdrB {
+u16
+
+b  ,
+
+}
+
+packet BodyA 
+{ 
+u32  c ,
+} packet
+
+    BodyB  {
+
+    u64	d , }packet
+TrlA { u8
+
+e
+,  }  root packet  Msg {	Frame	, u8 x , }")).
+Eval vm_compute in ("<<<M3440>>>" ++ check (runes_of_ascii "// top
+packet // c0a
+  // c0b
+B // c1
+{ // c2a
+  // c2b
+u8 // c3
+a // c4a
   // c4b
 ,
     // c5
-} // c6a
-  // c6b
-root packet // c8
-P // c9
-{
-    // c10
-u8 K
-    // c12
+} // c6
+root packet P // c9
+{ u8 // c11
+K // c12a
+  // c12b
 , // c13
-u8 // c14a
-  // c14b
-L // c15a
-  // c15b
-@lengthOf( // c16a
-  // c16b
-Body
-    // c17
-)
+match
+    // c14
+K
+    // c15
+as Body // c17a
+  // c17b
+{
     // c18
-, // c19
-match // c20a
-  // c20b
-K // c21a
-  // c21b
-as
-    // c22
-Body // c23a
-  // c23b
-{ // c24a
-  // c24b
-1 : // c26
-B , }
-    // c29
-, // c30
+1
+    // c19
+: B // c21
+, }
+    // c23
+, u16 // c25
+L @lengthOf( // c27a
+  // c27b
+Body // c28a
+  // c28b
+) // c29
+, // c30a
+  // c30b
 } // c31a
   // c31b
 ")).
-Eval vm_compute in ("<<<M1043>>>" ++ check (runes_of_ascii "packet // `tick` ""quote"" 'q'
-i8i8 {
-    // c
-    } MetaData repeatCount
-    //	t
-    {f32a leftPad
-    /// triple
-    `" ++ [233]%N ++ runes_of_ascii "` /// triple
-, BodyLength leftPad `line1
-line2`	, }packet lengthOf
-{	@lengthOf( tag)zchar[ 65535] stringy `
-` ,match // packet A { u8 x, }
-f32a
-    as
-u8x { 255 : o, [	007
-, // c
-""" ++ [28040; 24687]%N ++ runes_of_ascii """ , 255, 7, 3
-]//x
-:body , ""\" ++ [233]%N ++ runes_of_ascii """
-    :  zchar	, }, @leftPad( '\x00' ) Pad @calculatedFrom(  """ ++ [28040; 24687]%N ++ runes_of_ascii """
-) , }")).
-Eval vm_compute in ("<<<M117>>>" ++ check (runes_of_ascii "
-packet x { @leftPad ( )	i32 float
-,}
-    options{  chars =
-'0'
-    ;Header // c
-=
-""`tick`""  x =
-// `tick` ""quote"" 'q'
-//
-'\x00' ; rootA = char[	65535  ] ;
-}options	{
-x =
-""it's"" asx
-    // " ++ [27880; 37322]%N ++ runes_of_ascii "
-    = char[ 007] ;  zchar= int8 ;
-//	t
-// a // b
-zchar =true ; chars= char[]
-/// triple
-// `tick` ""quote"" 'q'
-}
-    options {  o  = 7 Logon
-=	10 /// triple
-body =
-    false a1 // c
-= ""x y"" }
-")).
-Eval vm_compute in ("<<<M892>>>" ++ check (runes_of_ascii "// c
-packet	uint8x
-{ @calculatedFrom(
-    ""CRC32"" )  repeat BodyLength,// " ++ [128512]%N ++ runes_of_ascii " emoji
-f32a
-    ,
-}
-// @lengthOf(
-//x
-root packet rootA
-    { @lengthOf( BodyLength )
-@lengthOf(
-roots )	repeat int // " ++ [27880; 37322]%N ++ runes_of_ascii "
-roots
-,
-    @tag(
-    007)repeat
-float64 o	, @calculatedFrom( """" )
-char[ 255	] repeatCount ,
-    // " ++ [128512]%N ++ runes_of_ascii " emoji
-    int {repeat roots roots , u32 tag  `crlf
-line` ,}
-    ,	}")).
-Eval vm_compute in ("<<<M1014>>>" ++ check (runes_of_ascii "// c
-MetaData
-    asx {i64_ f32a /// triple
-,
-stringy	pack
-`` , }MetaData  repeatCount
-//x
-// " ++ [27880; 37322]%N ++ runes_of_ascii "
-{ } options { // `tick` ""quote"" 'q'
-x=7// @lengthOf(
-; Foo
-    //
-    = 42 x = u64 ;/// triple
-x_y_z
-= u16 u8x =// c
-' ' }
-    //x
-    packet len	{
-    @lengthOf(
-    metadata ) @tag( 00 )
-@calculatedFrom( """ ++ [233]%N ++ runes_of_ascii "t" ++ [233]%N ++ runes_of_ascii """ ) len , } MetaData repeatCount { A Z9_,
-} // c")).
-Eval vm_compute in ("<<<M828>>>" ++ check (runes_of_ascii "options {
-} //	t
-options { MetaDataX =	"""" ; int //x
-= true ;
-    int
-    =""abc"";// @lengthOf(
-repeatCount=true T= ""a\\""  ;}
-    MetaData len {	A
-int ,string T`tab	here` , repeatCount lengthOf	`it's`
-,
-    Pad
-Pad, }MetaData MetaDataX
-/// triple
-// " ++ [27880; 37322]%N ++ runes_of_ascii "
-{
-//	t
-// trailing space 
-uint8
-    matchKey `" ++ [233]%N ++ runes_of_ascii "` ,	repeatCount crc  , char[] As
-    , }
-")).
-Eval vm_compute in ("<<<M1220>>>" ++ check (runes_of_ascii "root packet
-charz {// packet A { u8 x, }
-float64 rootA`
-`,	@tag(00 )
-    repeat calculatedFrom //	t
-a1
-`say ""hi""`
-    , u8 Foo @lengthOf( T )
-    // `tick` ""quote"" 'q'
-    , /// triple
-}	options {options1 =  i32
-    ; Logon // @lengthOf(
-=""CRC32"" tag
-    // packet A { u8 x, }
-    = ""CRC32""}MetaData
-_x  { u16 msg_type ,
-}
+Eval vm_compute in ("<<<M3844>>>" ++ check (runes_of_ascii "MetaData
 
-")).
-Eval vm_compute in ("<<<M141>>>" ++ check (runes_of_ascii "packet u  { @calculatedFrom( ""CRC32"" ) repeat zchar[ 1] x_y_z`crlf
-line` ,
-@leftPad
-    ( // `tick` ""quote"" 'q'
-)
-zchar[ // `tick` ""quote"" 'q'
-255
-]crc// c
-, } root
-    packet MetaDataX{@tag( 255 )
-rootA//x
-, }packet f32a {@lengthOf( packetx	) uint8 Z9_ @calculatedFrom(
-""CRC32"" )
-    /// triple
-    ,
-    }
-")).
-Eval vm_compute in ("<<<M927>>>" ++ check (runes_of_ascii "  options
-    {calculatedFrom = i32 ; // @lengthOf(
-string_
-    =
-    7 uint8x  =// c
-true ;
-    } packet chars { string	stringy @lengthOf(
-    // c
-    stringy )
-, } options{ lengthOf
-// " ++ [27880; 37322]%N ++ runes_of_ascii "
-// c
-= //	t
-'\x00'
-// c
-/// triple
-matchKey ='0' ; Z9_ = string ;
-calculatedFrom =
-true	;
-metadata= ""a	b"" ; }
-")).
-Eval vm_compute in ("<<<M3826>>>" ++ check (runes_of_ascii "root packet charz {
-    @calculatedFrom(""x y"")
-    zchar[0] u128 @calculatedFrom(""x y""),
-    u16 MetaDataX,
-    zchar[0123456789] u128,
-    uint16 u128,
-    @lengthOf(int)
-    _x Foo `
-    `,
-    zchar[00] o @calculatedFrom(""packet""),
-    rootA `doc`,
-    char[] msg_type @calculatedFrom(""" ++ [233]%N ++ runes_of_ascii "t" ++ [233]%N ++ runes_of_ascii """),
-}")).
-Eval vm_compute in ("<<<M1430>>>" ++ check (runes_of_ascii "root packet Foo // " ++ [128512]%N ++ runes_of_ascii " emoji
-{ } } options {
-    // a // b
-    tag // `tick` ""quote"" 'q'
-= //	t
-""""
-    ; u8x = zchar[0  ] }
-MetaData
-    int {zchar[ 10]
-lengthOf	`` , i64 u8x`// not a comment` ,MetaDataX pack// `tick` ""quote"" 'q'
-`crlf
-line`
-, Logon charz `crlf
-line`
-    ,
-    // a // b
-    }
-")).
-Eval vm_compute in ("<<<M1619>>>" ++ check (runes_of_ascii "root packet Foo // " ++ [128512]%N ++ runes_of_ascii " emoji
-{ } options {
-    // a //# b
-    tag // `tick` ""quote"" 'q'
-= //	t
-""""
-    ; u8x = zchar[0  ] }
-MetaData
-    int {zchar[ 10]
-lengthOf	`` , i64 u8x`// not a comment` ,MetaDataX pack// `tick` ""quote"" 'q'
-`crlf
-line`
-, Logon charz `crlf
-line`
-    ,
-    // a // b
-    }
-")).
-Eval vm_compute in ("<<<M1546>>>" ++ check (runes_of_ascii "root packet Foo // " ++ [128512]%N ++ runes_of_ascii " emoji
-{ } options {
-    // a // b
-    tag // `tick` ""quote"" 'q'
-= //	t
-""""
-    ; u8x = zchar[0  ] }
-MetaData
-    int {zchar[ 10]
-lengthOf	`` , i64 `// not a comment`u8x ,MetaDataX pack// `tick` ""quote"" 'q'
-`crlf
-line`
-, Logon charz `crlf
-line`
-    ,
-    // a // b
-    }
-")).
-Eval vm_compute in ("<<<M1599>>>" ++ check (runes_of_ascii "root packet Foo // " ++ [128512]%N ++ runes_of_ascii " emoji
-{ } options {
-    // a // b
-    tag // `tick` ""quote"" 'q'
-= //	t
-""""
-    ; u8x = zchar[0  ] }
-MetaData
-    int {zchar[ 10]
-lengthOf	`` , i64 u8x`// not a comment` ,MetaDataX pack// `tick` ""quote"" 'q'
-`crlf
-line`
-, Logon charz `crlf
-line`
-    ,
-    // a // b
-    
-")).
-Eval vm_compute in ("<<<M1584>>>" ++ check (runes_of_ascii "root packet Foo // " ++ [128512]%N ++ runes_of_ascii " emoji
-{ } options {
-    // a // b
-    tag // `tick` ""quote"" 'q'
-= //	t
-""""
-    ; u8x = zchar[0  ] }
-MetaData
-    int {zchar[ 10]
-lengthOf	`` , i64 u8x`// not a comment` ,MetaDataX pack// `tick` ""quote"" 'q'
-`crlf
-line`
-, Logon  `crlf
-line`
-    ,
-    // a // b
-    }
-")).
-Eval vm_compute in ("<<<M993>>>" ++ check (runes_of_ascii "packet chars // a // b
-{ }
-packet int
-    { options1 // " ++ [128512]%N ++ runes_of_ascii " emoji
-{ repeat int32 u ,char[] Pad `" ++ [28040; 24687; 31867; 22411]%N ++ runes_of_ascii "`, },
-    repeat char[] T
-/// triple
-//	t
-,	match u128 as Packet {
-""\n"": MetaDataX , ""\n""
-    :
-falsey
-    ""a	b""
-:
-    i8i8 ,""it's"" : options1	,""`tick`"":
-pack , ""\" ++ [233]%N ++ runes_of_ascii """:int  , }	, }
-")).
-Eval vm_compute in ("<<<M536>>>" ++ check (runes_of_ascii "root packet A  { @rightPad ( ) char[ 0
-// @lengthOf(
-// trailing space 
-] Logon
-    //
-    @calculatedFrom( ""abc""
-)
-    `line1
-line2` , @calculatedFrom(
-""// no comment"" )repeat f64 u128// " ++ [27880; 37322]%N ++ runes_of_ascii "
-`line1
-line2`// @lengthOf(
-, }	options  {BodyLength =	' ' packetx =
-""abc"" }")).
-Eval vm_compute in ("<<<M3547>>>" ++ check (runes_of_ascii "packet  Sub{ 
-u8 
-a	,@calculatedFrom( ""CRC16"" )  i16
-
-SubSum
-
-    ,
-}root packet
-
-Frame {	u16
-
-    MsgType
-,
-u16	BodyLen
-
-    @lengthOf( Body)
-    ,
-
-    Sub
-	Body ,
-	string	note 
-,
-
-@calculatedFrom(
-""CRC16""
-	)	i16	Checksum
-
-,
-    u8
-    tail  ,}")).
-Eval vm_compute in ("<<<M3829>>>" ++ check (runes_of_ascii "MetaData trueish
-
-{ 
-tag
-	Foo
-`say ""hi""`  ,
-
-zchar[4294967296 
+metadata
+    {
+char[ 3	// " ++ [128512]%N ++ runes_of_ascii " emoji
 ]
-	charz// packet A { u8 x, }
+roots  , As zchar
+,u msg_type
+`say ""hi""`  , float32  options1
+`` ,char[]packetx
 
-  , 
-
-/// triple
-  	// a // b
-	Z9_
-
-    _x ,
-    char[ 0123456789 ] 
-lengthOf
-    ,i64
-u8x`// not a comment`
-,
-
-    f32a a1
-
-    `doc` 
-,
-    }")).
-Eval vm_compute in ("<<<M1207>>>" ++ check (runes_of_ascii "packet repeatCount{ @rightPad ( )@rightPad // " ++ [27880; 37322]%N ++ runes_of_ascii "
-(
-    // c
-    '\x00' ) matchKey // " ++ [27880; 37322]%N ++ runes_of_ascii "
-@lengthOf( zchar ) ,	match int as  int { 00:Header, }
     ,
-//x
+
+    }
+root
+packet f32a
+    {
+    char[]
+MetaDataX
+
+`{ , }`
+
+,}
+	/// triple
+
+  // c
+  	packet
+
+    _x {@lengthOf(
+A	)
+
+    i64 
+x
+    ,int@lengthOf(	// " ++ [128512]%N ++ runes_of_ascii " emoji
+
+	MetaDataX
+
+)
+,	repeat
+BodyLength {
+f32
+	lengthOf
+,
+    }  ,
+
+} ")).
+Eval vm_compute in ("<<<M1168>>>" ++ check (runes_of_ascii "
+packet
+    // `tick` ""quote"" 'q'
+    asx	{	@lengthOf( calculatedFrom
+)
+x float `line1
+line2` ,
+    // " ++ [128512]%N ++ runes_of_ascii " emoji
+    Logon @calculatedFrom(
 /// triple
-@leftPad (
-'\x00')
-    // @lengthOf(
-    repeat o options1`u8 x,`
-    ,}
-")).
-Eval vm_compute in ("<<<M2321>>>" ++ check (runes_of_ascii "MetaData Packet { }packet	asx  { @lengthOf( asx) falsey`crlf
-line`
-,
-    }
-    packet x	{uint32// @lengthOf(
-rootA	,u32 options1 `say ""hi""` `say ""hi""` , @tag( 7
-    )// packet A { u8 x, }
-msg_type @lengthOf(
-stringy	)	, }
-
-")).
-Eval vm_compute in ("<<<M2296>>>" ++ check (runes_of_ascii "MetaData Packet { }packet	asx  { @lengthOf( asx) falsey`crlf
-line`
-,
-    }
-    packet x	{uint32 uint32// @lengthOf(
-rootA	,u32 options1 `say ""hi""` , @tag( 7
-    )// packet A { u8 x, }
-msg_type @lengthOf(
-stringy	)	, }
-
-")).
-Eval vm_compute in ("<<<M1364>>>" ++ check (runes_of_ascii "packet
-MetaDataX {
-    @lengthOf(
-    calculatedFrom // `tick` ""quote"" 'q'
-) repeat char[
-    3 ] lengthOf ,uint32 msg_type//x
-@lengthOf(falsey )
-`
-`
-    , u32 // a // b
-u8x@calculatedFrom(  """ ++ [28040; 24687]%N ++ runes_of_ascii """	)`crlf
-line` , }
-")).
-Eval vm_compute in ("<<<M2385>>>" ++ check (runes_of_ascii "MetaData Packet { }packet	asx  { @lengthOf( asx) falsey`crlf
-line`
-,
-    }
-    packet x	{uint32// @lengthOf(
-rootA	,u32 options1 `say ""hi""` , @tag( 7
-    )// packet A { u8 x, }
-msg_type @lengthOf(
-stringy	)	@, }
-
-")).
-Eval vm_compute in ("<<<M2337>>>" ++ check (runes_of_ascii "MetaData Packet { }packet	asx  { @lengthOf( asx) falsey`crlf
-line`
-,
-    }
-    packet x	{uint32// @lengthOf(
-rootA	,u32 options1 `say ""hi""` , @tag( )
-    7// packet A { u8 x, }
-msg_type @lengthOf(
-stringy	)	, }
-
-")).
-Eval vm_compute in ("<<<M2253>>>" ++ check (runes_of_ascii "MetaData Packet { }packet	asx  { @lengthOf( =) falsey`crlf
-line`
-,
-    }
-    packet x	{uint32// @lengthOf(
-rootA	,u32 options1 `say ""hi""` , @tag( 7
-    )// packet A { u8 x, }
-msg_type @lengthOf(
-stringy	)	, }
-
-")).
-Eval vm_compute in ("<<<M3854>>>" ++ check (runes_of_ascii "
+// @lengthOf(
+""it's"" )`say ""hi""` ,u16 crc , f64// `tick` ""quote"" 'q'
+a1 ,} packet
+matchKey { @calculatedFrom( """ ++ [28040; 24687]%N ++ runes_of_ascii """ )  asx {
+Header packetx// c
+`doc` , } , repeat Header _x // packet A { u8 x, }
+, Logon , }")).
+Eval vm_compute in ("<<<M3787>>>" ++ check (runes_of_ascii "
 
   packet
-	int {
+    calculatedFrom  // c1
+  { @tag( 	 // c3a
+    	// c3b
+  4294967296  // c4
+  ) 	 // c5
+	u // c6a
+    // c6b
+  msg_type 
+// c7
+      , 
+// c8
+char[  // c9
+3 
+// c10
+]  
+  // c11
+	  crc
 
-match roots 
-
+    // c12
+	@lengthOf( // c13a
+  // c13b
+	len // c14a
+	// c14b
+    )// c15a
+    // c15b
+`u8 x,`
+    // c16
+  ,// c17
+  } 
+      // c18")).
+Eval vm_compute in ("<<<M3943>>>" ++ check (runes_of_ascii "packet stringy {
+    falsey @lengthOf(MetaDataX) `crlf
+    line`,
+    match tag as uint8x {
+        ""a\""b"" : charz,
+        00 : repeatCount,
+        10 : Header,
+        ""a	b"" : Pad,
+        65535 : metadata,
+    },
+    @calculatedFrom(""a\""b"")
+    //x
+    char[255] falsey,
+    x_y_z @calculatedFrom(""packet"") `tab	here`,
+}")).
+Eval vm_compute in ("<<<M4430>>>" ++ check (runes_of_ascii "packet string_ {
+    match Pad as Z9_ {
+        [42] : trueish,
+        // trailing space 
+    },
+    float32 x `u8 x,`,
+    @leftPad('\x00')
+    o @lengthOf(x_y_z),
+    msg_type @lengthOf(u) `line1
+        line2`,
+    @calculatedFrom(""a\\"")
+    int @calculatedFrom(""packet""),
+    BodyLength `// not a comment`,
+}")).
+Eval vm_compute in ("<<<M4003>>>" ++ check (runes_of_ascii "// @lengthOf(
+packet _x {
+    @calculatedFrom(""a	b"")
+    T rootA ``,
+    u64 body @calculatedFrom(""a	b"") `two words`,
+    zchar[7] MetaDataX @calculatedFrom(""it's"") `say ""hi""`,
+    // trailing space 
+    // `tick` ""quote"" 'q'
+    f32a {
+        repeat zchar[00] roots `" ++ [233]%N ++ runes_of_ascii "`,
+    },
+}// `tick` ""quote"" 'q'")).
+Eval vm_compute in ("<<<M1612>>>" ++ check (runes_of_ascii "root packet Foo // " ++ [128512]%N ++ runes_of_ascii " emoji
+{ } options {
+    // a // b
+    tag // `tick` ""quote"" 'q'
+= //	t
+""""
+    ; u8x = zchar[0  ] }
+MetaData
+    int {'1' zchar[ 10]
+lengthOf	`` , i64 u8x`// not a comment` ,MetaDataX pack// `tick` ""quote"" 'q'
+`crlf
+line`
+, Logon charz `crlf
+line`
+    ,
+    // a // b
+    }
+")).
+Eval vm_compute in ("<<<M1555>>>" ++ check (runes_of_ascii "root packet Foo // " ++ [128512]%N ++ runes_of_ascii " emoji
+{ } options {
+    // a // b
+    tag // `tick` ""quote"" 'q'
+= //	t
+""""
+    ; u8x = zchar[0  ] }
+MetaData
+    int {zchar[ 10]
+lengthOf	`` , i64 u8x`// not a comment` , ,MetaDataX pack// `tick` ""quote"" 'q'
+`crlf
+line`
+, Logon charz `crlf
+line`
+    ,
+    // a // b
+    }
+")).
+Eval vm_compute in ("<<<M1436>>>" ++ check (runes_of_ascii "root packet Foo // " ++ [128512]%N ++ runes_of_ascii " emoji
+{ } { options
+    // a // b
+    tag // `tick` ""quote"" 'q'
+= //	t
+""""
+    ; u8x = zchar[0  ] }
+MetaData
+    int {zchar[ 10]
+lengthOf	`` , i64 u8x`// not a comment` ,MetaDataX pack// `tick` ""quote"" 'q'
+`crlf
+line`
+, Logon charz `crlf
+line`
+    ,
+    // a // b
+    }
+")).
+Eval vm_compute in ("<<<M1596>>>" ++ check (runes_of_ascii "root packet Foo // " ++ [128512]%N ++ runes_of_ascii " emoji
+{ } options {
+    // a // b
+    tag // `tick` ""quote"" 'q'
+= //	t
+""""
+    ; u8x = zchar[0  ] }
+MetaData
+    int {zchar[ 10]
+lengthOf	`` , i64 u8x`// not a comment` ,MetaDataX pack// `tick` ""quote"" 'q'
+`crlf
+line`
+, Logon charz `crlf
+line`
+    }
+    // a // b
+    ,
+")).
+Eval vm_compute in ("<<<M1514>>>" ++ check (runes_of_ascii "root packet Foo // " ++ [128512]%N ++ runes_of_ascii " emoji
+{ } options {
+    // a // b
+    tag // `tick` ""quote"" 'q'
+= //	t
+""""
+    ; u8x = zchar[0  ] }
+MetaData
+    int {zchar[ ]
+lengthOf	`` , i64 u8x`// not a comment` ,MetaDataX pack// `tick` ""quote"" 'q'
+`crlf
+line`
+, Logon charz `crlf
+line`
+    ,
+    // a // b
+    }
+")).
+Eval vm_compute in ("<<<M474>>>" ++ check (runes_of_ascii "options {body // " ++ [27880; 37322]%N ++ runes_of_ascii "
+= u16; asx =char[]
+;	} MetaData
+leftPad { len rootA , int64	BodyLength `say ""hi""` , char[ 00 ] packetx// " ++ [128512]%N ++ runes_of_ascii " emoji
+,char[
+    // a // b
+    42 ] x `// not a comment`  ,
+    int i64_
 //	t
-	// @lengthOf(
-
-	as	//	t
-  u8x {
-    7	:	packetx, 
-0 :As
-    ""packet"" : 
-	    // a // b
-    a1
-    // " ++ [27880; 37322]%N ++ runes_of_ascii "
-
-  //x
-    , ""packet""	: float
-
-}
-, 
-Z9_ @lengthOf(	u128
-)	,  } ")).
-Eval vm_compute in ("<<<M169>>>" ++ check (runes_of_ascii "packet u128 {
-string
-T
-, }
-packet
-A { Pad { metadata f32a, match  i8i8
-    as //x
-crc { 7:a1,[ ""1"" ] :Foo	, 7
-    : metadata
-    // c
-    , 65535 : pack
-    ,	} , repeat char[] string_, }/// triple
-,
+// `tick` ""quote"" 'q'
+`doc` ,
+char Pad `two words`// packet A { u8 x, }
+, //
 }
 ")).
-Eval vm_compute in ("<<<M973>>>" ++ check (runes_of_ascii "// a // b
-packet/// triple
-tag
-    { match	As as o
+Eval vm_compute in ("<<<M4137>>>" ++ check (runes_of_ascii "packet T {
+}
+
+packet string_ {
+    @tag(7)
+    repeat uint8 rootA,
+    @lengthOf(o)
+    float u,// trailing space 
+    Packet @calculatedFrom(""a\\""),
+    f32 repeatCount `say ""hi""`,
+}
+
+packet MetaDataX {
+    match leftPad as Packet {
+        007 : x,
+    },// trailing space 
+}")).
+Eval vm_compute in ("<<<M1037>>>" ++ check (runes_of_ascii "packet crc // " ++ [27880; 37322]%N ++ runes_of_ascii "
+{  zchar[ 0123456789 ]
+    A `say ""hi""`,repeat char[
+    255 ]u , zchar`// not a comment`//
+,}	packet  uint8x { int16 Packet ,
+repeat uint8x {
+    asx lengthOf , // @lengthOf(
+char[0123456789
+] // packet A { u8 x, }
+asx `line1
+line2`
+    , } ,
+}")).
+Eval vm_compute in ("<<<M3422>>>" ++ check (runes_of_ascii "// top
+options // c0a
+  // c0b
+{ // c1a
+  // c1b
+LittleEndian
+    // c2
+= true // c4a
+  // c4b
+; // c5a
+  // c5b
+} // c6
+root // c7
+packet
+    // c8
+P // c9a
+  // c9b
 {
-""`tick`"" :
-    float , },	string // c
-u128 `two words` ,	}
+    // c10
+repeat char cs // c13
+, // c14a
+  // c14b
+u8 // c15
+x // c16
+, // c17
+} ")).
+Eval vm_compute in ("<<<M3211>>>" ++ check (runes_of_ascii "// top
+packet // c0
+Logon // c1
+{ // c2
+@tag( // c3
+42 // c4
+) // c5
+@rightPad // c6
+( // c7
+' ' // c8
+) // c9
+@leftPad // c10
+( // c11
+) // c12
+repeat // c13
+trueish // c14
+{ // c15
+string // c16
+T // c17
+, // c18
+} // c19
+, // c20
+} // c21
+")).
+Eval vm_compute in ("<<<M3449>>>" ++ check (runes_of_ascii "// top
+options
+    // c0
+{
+    // c1
+FixedStringPadFromLeft =
+    // c3
+true // c4
+;
+    // c5
+}
+    // c6
+root
+    // c7
+packet P // c9a
+  // c9b
+{
+    // c10
+char[
+    // c11
+4 // c12a
+  // c12b
+] z
+    // c14
+, // c15a
+  // c15b
+} ")).
+Eval vm_compute in ("<<<M4499>>>" ++ check (runes_of_ascii "root packet Foo {
+}
+
+options {
+    // a // b
+    tag = """";
+    u8x = zchar[0]
+}
+
+MetaData int {
+    zchar[10] lengthOf ``,
+    i64 u8x `// not a comment`,
+    MetaDataX pack,
+    Logon charz `crlf
+    line`,
+    // a // b
+}")).
+Eval vm_compute in ("<<<M3800>>>" ++ check (runes_of_ascii "MetaData Packet {
+}
+
+packet asx {
+    @lengthOf(asx)
+    falsey `crlf
+        line`,
+}
+
+packet x {
+    uint32 rootA,
+    u32 options1 `say " ++ [127]%N ++ runes_of_ascii """hi""`,
+    @tag(7)
+    // packet A { u8 x, }
+    msg_type @lengthOf(stringy),
+}")).
+Eval vm_compute in ("<<<M2326>>>" ++ check (runes_of_ascii "MetaData Packet { }packet	asx  { @lengthOf( asx) falsey`crlf
+line`
+,
+    }
+    packet x	{uint32// @lengthOf(
+rootA	,u32 options1 `say ""hi""` , , @tag( 7
+    )// packet A { u8 x, }
+msg_type @lengthOf(
+stringy	)	, }
+
+")).
+Eval vm_compute in ("<<<M2232>>>" ++ check (runes_of_ascii "MetaData Packet { }asx	packet  { @lengthOf( asx) falsey`crlf
+line`
+,
+    }
+    packet x	{uint32// @lengthOf(
+rootA	,u32 options1 `say ""hi""` , @tag( 7
+    )// packet A { u8 x, }
+msg_type @lengthOf(
+stringy	)	, }
+
+")).
+Eval vm_compute in ("<<<M2225>>>" ++ check (runes_of_ascii "MetaData Packet { packet	asx  { @lengthOf( asx) falsey`crlf
+line`
+,
+    }
+    packet x	{uint32// @lengthOf(
+rootA	,u32 options1 `say ""hi""` , @tag( 7
+    )// packet A { u8 x, }
+msg_type @lengthOf(
+stringy	)	, }
+
+")).
+Eval vm_compute in ("<<<M2219>>>" ++ check (runes_of_ascii "MetaData as { }packet	asx  { @lengthOf( asx) falsey`crlf
+line`
+,
+    }
+    packet x	{uint32// @lengthOf(
+rootA	,u32 options1 `say ""hi""` , @tag( 7
+    )// packet A { u8 x, }
+msg_type @lengthOf(
+stringy	)	, }
+
+")).
+Eval vm_compute in ("<<<M2345>>>" ++ check (runes_of_ascii "MetaData Packet { }packet	asx  { @lengthOf( asx) falsey`crlf
+line`
+,
+    }
+    packet x	{uint32// @lengthOf(
+rootA	,u32 options1 `say ""hi""` , @tag( 7
+    )// packet A { u8 x, }
+ @lengthOf(
+stringy	)	, }
+
+")).
+Eval vm_compute in ("<<<M781>>>" ++ check (runes_of_ascii "//x
+MetaData	Z9_ // `tick` ""quote"" 'q'
+{ trueish
+stringy``
+, } options
+    {}
+// packet A { u8 x, }
+// " ++ [128512]%N ++ runes_of_ascii " emoji
+packet
+    // a // b
+    calculatedFrom { string charz@lengthOf( options1 ) `{ , }` , }
+")).
+Eval vm_compute in ("<<<M3758>>>" ++ check (runes_of_ascii "// a // b
+packet tag {
+    match As as o {
+        ""`tick`"" : float,
+    },
+    string u128 `two words`,
+}
+
 // " ++ [27880; 37322]%N ++ runes_of_ascii "
 // packet A { u8 x, }
-packet lengthOf	{ int64 u	@calculatedFrom( """ ++ [233]%N ++ runes_of_ascii "t" ++ [233]%N ++ runes_of_ascii """ ) ,	}
-")).
-Eval vm_compute in ("<<<M1212>>>" ++ check (runes_of_ascii "packet
-As {@tag(
-7) repeat char[ 4294967296 ]	stringy,int16 falsey
-,@tag(
-00 )
-    repeat u16 rootA
-    `crlf
-line`// @lengthOf(
+packet lengthOf {
+    int64 u @calculatedFrom(""" ++ [233]%N ++ runes_of_ascii "t" ++ [233]%N ++ runes_of_ascii """),
+}")).
+Eval vm_compute in ("<<<M1374>>>" ++ check (runes_of_ascii "// c
+packet // `tick` ""quote"" 'q'
+f32a{ }  MetaData rootA { zchar[007 // trailing space 
+] As
+, A u,a1
+A
 ,
-calculatedFrom charz ,} MetaData a1 {}MetaData asx
-{ }
-")).
-Eval vm_compute in ("<<<M1197>>>" ++ check (runes_of_ascii "
-options  { Z9_ =
-""\n"" ;calculatedFrom = ""packet"" ;zchar
-= ' ' ; } MetaData
-    asx { repeatCount	uint8x  `two words`
-    ,  a1 A `u8 x,`,
-Packet Z9_`crlf
-line`
-, } options { }
-")).
-Eval vm_compute in ("<<<M4458>>>" ++ check (runes_of_ascii "root 
-packet
-	// c1
-P 	 // c2
-
-{  u8  // c4
-
-s_u8 	 // c5
-	,	// c6
-repeat	// c7
-    u8 	 // c8
-r_u8
-	,  u16 	 // c11
-    b_len 
-// c12
-
-, // c13a
-  // c13b
-
-}
-    // c14
-")).
-Eval vm_compute in ("<<<M4064>>>" ++ check (runes_of_ascii "packet A {
+} root
+packet  Logon // @lengthOf(
+{	@tag( 1 )	x_y_z
+{ repeat
+u
+_x , } , }")).
+Eval vm_compute in ("<<<M3614>>>" ++ check (runes_of_ascii "packet A {
     match k as n {
         [
-            1, 007, 5, 7, 9,
-            11, ""bb"", ""d"", ""f"", ""h"",
-            ""j"", ""l""
+            ""a"", ""bb"", ""c c"", ""d"", ""e"",
+            ""f"", ""g"", ""h"", ""i"", ""j"",
+            ""k"", ""l""
         ] : B,
         2 : C,
     },
 }")).
-Eval vm_compute in ("<<<M4098>>>" ++ check (runes_of_ascii "packet float {
-    @lengthOf(T)
-    repeat charz {
-        // c
-        packetx @calculatedFrom(""" ++ [28040; 24687]%N ++ runes_of_ascii """) `" ++ [233]%N ++ runes_of_ascii "`,
-        char[4294967296] Header,
-    },
-}/// triple")).
-Eval vm_compute in ("<<<M4469>>>" ++ check (runes_of_ascii "MetaData chars {
-    char[] body,
-    char[] leftPad `tab	here`,
-    char Packet,
-    f32a trueish,
-    rootA i64_,
+Eval vm_compute in ("<<<M3677>>>" ++ check (runes_of_ascii "
+// top
+	MetaData// c0
+
+_x 	 // c1
+
+  {  // c2
+    zchar[  // c3
+4294967296	// c4
+      ]	// c5
+      lengthOf// c6
+    `// not a comment`	// c7
+
+  ,// c8
+    } // c9
+")).
+Eval vm_compute in ("<<<M4423>>>" ++ check (runes_of_ascii "packet i8i8 {
+    int64 BodyLength @calculatedFrom(""packet""),
+    @leftPad()
+    zchar[1] calculatedFrom,
+    repeat x_y_z,//	t
+    T A,
 }
 
-options {
-    rootA = zchar[0]
+MetaData charz {
+}// " ++ [27880; 37322]%N)).
+Eval vm_compute in ("<<<M3860>>>" ++ check (runes_of_ascii "packet A {
+    match k as n {
+        [
+            1, 22, 007, 4, 5,
+            66, 7, 8, 9, 10,
+            11, 12
+        ] : B,
+        2 : C,
+    },
 }")).
-Eval vm_compute in ("<<<M4131>>>" ++ check (runes_of_ascii "MetaData stringy {
-    zchar[255] u `
-        `,
-    string repeatCount,
-    As i8i8 `{ , }`,
-    string x_y_z,
-    uint16 Pad,
-    uint32 asx,
-}")).
-Eval vm_compute in ("<<<M3846>>>" ++ check (runes_of_ascii "MetaData  Header{ 
-f64
-lengthOf 
-,zchar[
-    7 ]
-	zchar 
+Eval vm_compute in ("<<<M1164>>>" ++ check (runes_of_ascii "packet metadata
+    {
+    @tag( 3 ) repeat	Logon ,}
+    MetaData crc {
+// `tick` ""quote"" 'q'
+// `tick` ""quote"" 'q'
+}
+    root packet
+x_y_z
+    { }
 
-    // `tick` ""quote"" 'q'
-	  // `tick` ""quote"" 'q'
-    `doc`
-	,len
-	x_y_z 
+")).
+Eval vm_compute in ("<<<M4148>>>" ++ check (runes_of_ascii "
+options
+	{	repeatCount
+=
+	u16 // `tick` ""quote"" 'q'
+	;
+float
+
+=
+' '  Logon  =  string
+    ;
+packetx
+
+=	// " ++ [128512]%N ++ runes_of_ascii " emoji
+3//
+a1
+
+=
+zchar[ 7 ] }
+")).
+Eval vm_compute in ("<<<M425>>>" ++ check (runes_of_ascii "MetaData metadata {options1 lengthOf , int x_y_z
+    `{ , }`  ,u16	tag `it's` ,i8i8 uint8x ,
+u16
+BodyLength`crlf
+line` , u8x len ``
 ,}
 ")).
-Eval vm_compute in ("<<<M719>>>" ++ check (runes_of_ascii "// packet A { u8 x, }
-options { falsey =
-int64 crc
-= i16 // a // b
-;
-}packet options1
-// `tick` ""quote"" 'q'
-//x
-{ // trailing space 
-}")).
-Eval vm_compute in ("<<<M4209>>>" ++ check (runes_of_ascii "// c
-options {
-    //
-    repeatCount = '0';
-    leftPad = ' ';
-    // c
+Eval vm_compute in ("<<<M1013>>>" ++ check (runes_of_ascii "MetaData string_ { char[0123456789 ]
+Pad	,u128 // " ++ [27880; 37322]%N ++ runes_of_ascii "
+Header`` ,Foo u8x ,	leftPad
+    trueish
+, char[
     /// triple
-    msg_type = char[10];
+    1 ]
+i64_,
 }
+")).
+Eval vm_compute in ("<<<M3636>>>" ++ check (runes_of_ascii "
 
-packet Packet {
-}")).
-Eval vm_compute in ("<<<M1708>>>" ++ check (runes_of_ascii "root packet /// triple
-rootA {	i32
-MetaDataX@calculatedFrom( ""CRC32"" ) `line1
-line2` , } MetaData BodyLength {
-u8
-rootA, , } // c")).
-Eval vm_compute in ("<<<M1684>>>" ++ check (runes_of_ascii "root packet /// triple
-rootA {	i32
-MetaDataX@calculatedFrom( ""CRC32"" ) `line1
-line2` , } BodyLength MetaData {
-u8
-rootA, } // c")).
-Eval vm_compute in ("<<<M1697>>>" ++ check (runes_of_ascii "root packet /// triple
-rootA {	i32
-MetaDataX@calculatedFrom( ""CRC32"" ) `line1
-line2` , } MetaData BodyLength {
+  packet calculatedFrom
+{
+	@tag(4294967296
+	)
 
-rootA, } // c")).
-Eval vm_compute in ("<<<M1782>>>" ++ check (runes_of_ascii "packet packet
+    u
+msg_type
+
+    ,  char[3
+    ]
+	crc
+@lengthOf(	// c
+len
+
+)
+`u8 x,`
+
+,}
+")).
+Eval vm_compute in ("<<<M1149>>>" ++ check (runes_of_ascii "
+MetaData matchKey {crc
+Pad
+`{ , }`, string
+    roots `tab	here`
+    , stringy u,  uint64 u8x `{ , }`
+    ,int A//
+`u8 x,`
+, }
+")).
+Eval vm_compute in ("<<<M1889>>>" ++ check (runes_of_ascii "packet
     Pad // a // b
 { i8i8 @calculatedFrom( ""a	b"") `u8 x,` ,
+} options{ float// " ++ [128512]%N ++ runes_of_ascii " emoji
+= @lengthOf f64 i64_
+=//	t
+00 }
+")).
+Eval vm_compute in ("<<<M4522>>>" ++ check (runes_of_ascii "
+packet o 
+{
+
+    @tag(  42)
+    repeat x {
+    char[
+    0123456789	]
+
+i64_, 
+    // c
+	} 
+,
+	}
+
+    options
+    {}
+
+")).
+Eval vm_compute in ("<<<M491>>>" ++ check (runes_of_ascii "packet crc
+{	}options { a1 = char[ 3] ;
+} root
+packet Pad{ }	packet	crc { int32
+zchar // @lengthOf(
+, } packet pack
+{ }
+")).
+Eval vm_compute in ("<<<M1711>>>" ++ check (runes_of_ascii "root packet /// triple
+rootA {	i32
+MetaDataX@calculatedFrom( ""CRC32"" ) `line1
+line2` , } MetaData BodyLength {
+u8
+rootA")).
+Eval vm_compute in ("<<<M4480>>>" ++ check (runes_of_ascii "
+packet
+    A
+{u16	len
+@lengthOf(
+body	)  `a
+b`
+    ,
+u32
+    crc @calculatedFrom(  ""CRC32"")`a
+b` 
+,
+string
+	body
+
+, }")).
+Eval vm_compute in ("<<<M1797>>>" ++ check (runes_of_ascii "packet
+    Pad // a // b
+{ @calculatedFrom( i8i8 ""a	b"") `u8 x,` ,
 } options{ float// " ++ [128512]%N ++ runes_of_ascii " emoji
 = f64 i64_
 =//	t
 00 }
 ")).
-Eval vm_compute in ("<<<M1715>>>" ++ check (runes_of_ascii "root packet /// triple
-rootA {	i32
-MetaDataX@calculatedFrom( ""CRC32"" ) `line1
-line2` , } MetaData BodyLength {
-u8
-rootA,")).
-Eval vm_compute in ("<<<M1826>>>" ++ check (runes_of_ascii "packet
+Eval vm_compute in ("<<<M1860>>>" ++ check (runes_of_ascii "packet
     Pad // a // b
 { i8i8 @calculatedFrom( ""a	b"") `u8 x,` ,
-} } options{ float// " ++ [128512]%N ++ runes_of_ascii " emoji
+} options{ float// " ++ [128512]%N ++ runes_of_ascii " emoji
+= f64 i64_
+//	t
+00 }
+")).
+Eval vm_compute in ("<<<M1873>>>" ++ check (runes_of_ascii "packet
+    Pad // a // b
+{ i8i8 @calculatedFrom( ""a	b"") `u8 x,` ,
+} options{ float// " ++ [128512]%N ++ runes_of_ascii " emoji
+= f64 i64_
+=//	t
+00")).
+Eval vm_compute in ("<<<M1818>>>" ++ check (runes_of_ascii "packet
+    Pad // a // b
+{ i8i8 @calculatedFrom( ""a	b"") : ,
+} options{ float// " ++ [128512]%N ++ runes_of_ascii " emoji
 = f64 i64_
 =//	t
 00 }
 ")).
-Eval vm_compute in ("<<<M4114>>>" ++ check (runes_of_ascii "packet Logon {
-    @tag(42)
-    @rightPad(' ')
-    @leftPad()
-    // c
-    repeat trueish {
-        string T,
-    },
-}")).
-Eval vm_compute in ("<<<M437>>>" ++ check (runes_of_ascii "options { calculatedFrom= ""a\""b"" calculatedFrom=
-i64 MetaDataX //
-=  ""x y""msg_type = char[1
-/// triple
-// c
-] ;} //x")).
-Eval vm_compute in ("<<<M99>>>" ++ check (runes_of_ascii "// c
-packet Logon
-    {
-@tag(
-42 )
-    repeat i64_ {As crc , }, } packet x_y_z { @lengthOf( x_y_z ) i8
-u `it's`, }")).
-Eval vm_compute in ("<<<M3187>>>" ++ check (runes_of_ascii "MetaData zchar // c1
-{ // c2a
-  // c2b
-zchar[ // c3a
-  // c3b
-3 ]
-    // c5
-Pad // c6
-, // c7a
-  // c7b
-} // c8
-")).
-Eval vm_compute in ("<<<M2374>>>" ++ check (runes_of_ascii "MetaData Packet { }packet	asx  { @lengthOf( asx) falsey`crlf
+Eval vm_compute in ("<<<M2377>>>" ++ check (runes_of_ascii "MetaData Packet { }packet	asx  { @lengthOf( asx) falsey`crlf
 line`
 ,
     }
-    packet x	{uint32// @lengthOf")).
-Eval vm_compute in ("<<<M2987>>>" ++ check (runes_of_ascii "packet A {
-  match k as n {
-    [""a"", ""bb"", 007, ""d"", ""e"", 66, ""g"", ""h"", 9, ""j"", ""k""] : B
-    2 : C
-  },
-}")).
-Eval vm_compute in ("<<<M3029>>>" ++ check (runes_of_ascii "packet A {
-    Inner {
-        u8 x `a
+    packet x	{uint32// @lengthO")).
+Eval vm_compute in ("<<<M3585>>>" ++ check (runes_of_ascii "
+MetaData
+lengthOf// a // b
+		{	i64	matchKey
+// " ++ [128512]%N ++ runes_of_ascii " emoji
+		// packet A { u8 x, }
+    `say ""hi""`
+    , }")).
+Eval vm_compute in ("<<<M3344>>>" ++ check (runes_of_ascii "packet calculatedFrom {
+// c
+@tag( 4294967296 ) u msg_type , char[ 3 ] crc @lengthOf( len ) `u8 x,` , }")).
+Eval vm_compute in ("<<<M3754>>>" ++ check (runes_of_ascii "
+MetaData
 
-b`,
-        Deep {
-            u8 y `a
+    charz
+{int8
+	_x
 
-b`,
-        },
-    },
-}")).
-Eval vm_compute in ("<<<M3369>>>" ++ check (runes_of_ascii "packet calculatedFrom { @tag( 4294967296 ) u msg_type , char[ 3 ] crc @lengthOf( len ) // c
-`u8 x,` , }")).
-Eval vm_compute in ("<<<M3800>>>" ++ check (runes_of_ascii "  packet  A {	match	k as	n
-	{
-	[
-    1 ,
+    `tab	here`
 
-    ""bb""
     ,
-	007
-,
-""d"",  5	] :
+    u64
 
-    B
-	2	:
-C},
-}
+    Pad
+
+`say ""hi""` ,
+
+    }
 ")).
-Eval vm_compute in ("<<<M3017>>>" ++ check (runes_of_ascii "packet A {
+Eval vm_compute in ("<<<M3035>>>" ++ check (runes_of_ascii "packet A {
     Inner {
-        u8 x `
+        u8 x `x
 `,
         Deep {
-            u8 y `
+            u8 y `x
 `,
         },
     },
 }")).
-Eval vm_compute in ("<<<M3219>>>" ++ check (runes_of_ascii "packet Logon
-// c
-{ @tag( 42 ) @rightPad ( ' ' ) @leftPad ( ) repeat trueish { string T , } , }")).
-Eval vm_compute in ("<<<M3251>>>" ++ check (runes_of_ascii "packet Logon { @tag( 42 ) @rightPad ( ' ' ) @leftPad ( ) repeat trueish { string T
-// c
-, } , }")).
-Eval vm_compute in ("<<<M3807>>>" ++ check (runes_of_ascii "packet	o {
-@tag( 42 
-)repeat	x
-{char[  0123456789
-]
-i64_ ,
-	} 
-	// c
-  ,
-}
-
-options {
-
-} ")).
-Eval vm_compute in ("<<<M3889>>>" ++ check (runes_of_ascii "options {
-    matchKey = ' '
-    tag = '\x00';
-    metadata = string;
-    charz = 65535;
-}")).
-Eval vm_compute in ("<<<M1972>>>" ++ check (runes_of_ascii "root
-packet crc
-    { { f32a @calculatedFrom( """ ++ [233]%N ++ runes_of_ascii "t" ++ [233]%N ++ runes_of_ascii """ )
-    `say ""hi""`, lengthOf `` ,  }")).
-Eval vm_compute in ("<<<M4036>>>" ++ check (runes_of_ascii "packet
-
-A
-	{
-Inner{ u8 
-x
-
-`x
-`
-,
-
-Deep
-
-{
-
-    u8
-    y
-    `x
-` ,	}	, 
-},
-    } ")).
-Eval vm_compute in ("<<<M2001>>>" ++ check (runes_of_ascii "root
-packet crc
-    { f32a @calculatedFrom( """ ++ [233]%N ++ runes_of_ascii "t" ++ [233]%N ++ runes_of_ascii """ )
-    `say ""hi""` lengthOf `` ,  }")).
-Eval vm_compute in ("<<<M3333>>>" ++ check (runes_of_ascii "packet o { @tag( 42 ) repeat x { char[ 0123456789 ] i64_ , } , } options { }
-// c
-")).
-Eval vm_compute in ("<<<M3310>>>" ++ check (runes_of_ascii "packet o { @tag( 42 ) repeat x { // c
-char[ 0123456789 ] i64_ , } , } options { }")).
-Eval vm_compute in ("<<<M2020>>>" ++ check (runes_of_ascii "root
-packet crc
-    { f32a @calculatedFrom( """ ++ [233]%N ++ runes_of_ascii "t" ++ [233]%N ++ runes_of_ascii """ )
-    `say ""hi""`, lengthOf ``")).
-Eval vm_compute in ("<<<M2904>>>" ++ check (runes_of_ascii "packet A {
-  match k as n {
-    [""a"", 22, ""c c"", 4, ""e""] : B,
-    2 : C
-  },
-}")).
-Eval vm_compute in ("<<<M1211>>>" ++ check (runes_of_ascii "packet
-uint8x{ options1 @lengthOf(calculatedFrom
-)`crlf
-line`, // " ++ [27880; 37322]%N ++ runes_of_ascii "
-}
-")).
-Eval vm_compute in ("<<<M2891>>>" ++ check (runes_of_ascii "packet A {
-  match k as n {
-    [""a"", 22, ""c c"", 4] : B,
-    2 : C
-  },
-}")).
-Eval vm_compute in ("<<<M617>>>" ++ check (runes_of_ascii "  packet	Packet { repeat int16
-charz // a // b
-,zchar[	65535 ]	tag , }")).
-Eval vm_compute in ("<<<M4172>>>" ++ check (runes_of_ascii "  packet
-
-A
-{
-B
-b
-
-    `x
-` , B`x
-`
-    ,repeat 
-B bs
-`x
-` ,
+Eval vm_compute in ("<<<M1055>>>" ++ check (runes_of_ascii "
+MetaData u { stringy metadata
+`// not a comment` , u8 len
+, _x a1, string
+    Z9_
+    ,
     }")).
-Eval vm_compute in ("<<<M2203>>>" ++ check (runes_of_ascii "root
-    // `tick` ""quote"" 'q'
-    packet As { trueish Packet , "" }
+Eval vm_compute in ("<<<M3220>>>" ++ check (runes_of_ascii "packet Logon { // c
+@tag( 42 ) @rightPad ( ' ' ) @leftPad ( ) repeat trueish { string T , } , }")).
+Eval vm_compute in ("<<<M3252>>>" ++ check (runes_of_ascii "packet Logon { @tag( 42 ) @rightPad ( ' ' ) @leftPad ( ) repeat trueish { string T , // c
+} , }")).
+Eval vm_compute in ("<<<M4272>>>" ++ check (runes_of_ascii "  packet
+A {
+	match
+
+    k  as n{
+
+[1 ,  22 
+,
+""c c"",
+
+4
+	]	:B
+2
+
+    :
+C
+
+    } 
+, }
 ")).
-Eval vm_compute in ("<<<M1327>>>" ++ check (runes_of_ascii "MetaData Foo{ lengthOf tag /// triple
+Eval vm_compute in ("<<<M3592>>>" ++ check (runes_of_ascii "packet A {
+    match k as n {
+        [""a"", ""bb"", ""c c"", ""d""] : B,
+        2 : C,
+    },
+}")).
+Eval vm_compute in ("<<<M3913>>>" ++ check (runes_of_ascii "packet
+    A {
+match
+	k as
+n
+
+{
+[
+""a"" 
+, 22
+	,
+
+    ""c c"" ]  :
+
+    B 
+2  :	C},
+	}")).
+Eval vm_compute in ("<<<M1458>>>" ++ check (runes_of_ascii "root packet Foo // " ++ [128512]%N ++ runes_of_ascii " emoji
+{ } options {
+    // a // b
+    tag // `tick` ""quote"" 'q'
+=")).
+Eval vm_compute in ("<<<M1999>>>" ++ check (runes_of_ascii "root
+packet crc
+    { f32a @calculatedFrom( """ ++ [233]%N ++ runes_of_ascii "t" ++ [233]%N ++ runes_of_ascii """ )
+    BodyLength, lengthOf `` ,  }")).
+Eval vm_compute in ("<<<M4428>>>" ++ check (runes_of_ascii "
+
+  packet
+o {
+
+@rightPad
+
+    ( ) // trailing space 
+  x_y_z 
+calculatedFrom
+
+,}")).
+Eval vm_compute in ("<<<M1989>>>" ++ check (runes_of_ascii "root
+packet crc
+    { f32a @calculatedFrom( ( )
+    `say ""hi""`, lengthOf `` ,  }")).
+Eval vm_compute in ("<<<M3319>>>" ++ check (runes_of_ascii "packet o { @tag( 42 ) repeat x { char[ 0123456789 ] i64_
+// c
+, } , } options { }")).
+Eval vm_compute in ("<<<M3621>>>" ++ check (runes_of_ascii "options {
+    FixedStringPadFromLeft = true;
+}
+
+root packet P {
+    char[4] z,
+}")).
+Eval vm_compute in ("<<<M4140>>>" ++ check (runes_of_ascii "packet A {
+    // a
+    @tag(1)
+    u8 x,// b
+    // c
+    @tag(2)
+    u8 y,
+}")).
+Eval vm_compute in ("<<<M4473>>>" ++ check (runes_of_ascii "root packet Z9_ {
+    @rightPad()
+    packetx `" ++ [233]%N ++ runes_of_ascii "`,
+}
+
+root packet falsey {
+}")).
+Eval vm_compute in ("<<<M2158>>>" ++ check (runes_of_ascii "root
+    // `tick` ""quote"" 'q'
+    packet packet As { trueish Packet , }
+")).
+Eval vm_compute in ("<<<M3744>>>" ++ check (runes_of_ascii "packet  A
+
+    {
+
+    repeat// a
+  B // b
+  b	// c
+		`d` // e
+,
+}")).
+Eval vm_compute in ("<<<M3411>>>" ++ check (runes_of_ascii "MetaData _x { zchar[ 4294967296 ] lengthOf `// not a comment` , // c
+}")).
+Eval vm_compute in ("<<<M2187>>>" ++ check (runes_of_ascii "root
+    // `tick` ""quote"" 'q'
+    packet As { trueish Packet , } }
+")).
+Eval vm_compute in ("<<<M3617>>>" ++ check (runes_of_ascii "MetaData M {
+    u8 x `tab
+        	x`,
+    T t `tab
+        	x`,
+}")).
+Eval vm_compute in ("<<<M2164>>>" ++ check (runes_of_ascii "root
+    // `tick` ""quote"" 'q'
+    packet = { trueish Packet , }
+")).
+Eval vm_compute in ("<<<M3003>>>" ++ check (runes_of_ascii "packet A {
+    B b `a
+b`,
+    B `a
+b`,
+    repeat B bs `a
+b`,
+}")).
+Eval vm_compute in ("<<<M4077>>>" ++ check (runes_of_ascii "
+
+  packet
+    i64_
+	{
+
+@calculatedFrom(
+""\" ++ [233]%N ++ runes_of_ascii """) u16 
+a1
 ,
 }
-// packet A { u8 x, }
 ")).
-Eval vm_compute in ("<<<M2186>>>" ++ check (runes_of_ascii "root
-    // `tick` ""quote"" 'q'
-    packet As { trueish Packet , 
-")).
-Eval vm_compute in ("<<<M3971>>>" ++ check (runes_of_ascii "packet
+Eval vm_compute in ("<<<M4468>>>" ++ check (runes_of_ascii "
+MetaData 
+zchar
+{
+zchar[ 3
 
-    A  { match	k
-as
+    ]
 
-n{ 1
-: B	// c
-,// d
-}
-	, }
+Pad  // c
+    ,	}
 
 ")).
-Eval vm_compute in ("<<<M497>>>" ++ check (runes_of_ascii "packet T { u64
-asx @calculatedFrom( ""// no comment"" ) ,	} 	 ")).
-Eval vm_compute in ("<<<M4177>>>" ++ check (runes_of_ascii "options {
-    leftPad = ""it's""
-    u8x = 1
-    tag = true
-}")).
 Eval vm_compute in ("<<<M3015>>>" ++ check (runes_of_ascii "packet A {
     B b `
 `,
@@ -2214,98 +2356,93 @@ Eval vm_compute in ("<<<M3015>>>" ++ check (runes_of_ascii "packet A {
     repeat B bs `
 `,
 }")).
-Eval vm_compute in ("<<<M1917>>>" ++ check (runes_of_ascii "
-packet	As { @calculatedFrom(//x
-)	""{,}""lengthOf , } 	 ")).
-Eval vm_compute in ("<<<M4260>>>" ++ check (runes_of_ascii "  MetaData
-zchar
+Eval vm_compute in ("<<<M1907>>>" ++ check (runes_of_ascii "
+packet	As @calculatedFrom( {//x
+""{,}""	)lengthOf , } 	 ")).
+Eval vm_compute in ("<<<M530>>>" ++ check (runes_of_ascii "packet	_x  {repeat crc { char[
+7 ]
+float , }
+, } 	 ")).
+Eval vm_compute in ("<<<M2404>>>" ++ check (runes_of_ascii "MetaData A
 {
-
-    zchar[3 
-]
-
-Pad
-	, }// c
-")).
-Eval vm_compute in ("<<<M1938>>>" ++ check (runes_of_ascii "
-packet	As { @calculatedFrom(//x
-""{,}""	)lengthOf ,")).
-Eval vm_compute in ("<<<M3743>>>" ++ check (runes_of_ascii "
+i64
+chars	@x, } // `tick` ""quote"" 'q'")).
+Eval vm_compute in ("<<<M4354>>>" ++ check (runes_of_ascii "  // " ++ [128512]%N ++ runes_of_ascii " emoji
 options
 	{
-a
 
-= 
-1	// c
-    b
+u128
+    = '\x00'
 
-=2  ;// d
+;}
+")).
+Eval vm_compute in ("<<<M1775>>>" ++ check (runes_of_ascii "options ~ { }options {  } // `tick` ""quote"" 'q'")).
+Eval vm_compute in ("<<<M2175>>>" ++ check (runes_of_ascii "root
+    // `tick` ""quote"" 'q'
+    packet As {")).
+Eval vm_compute in ("<<<M1756>>>" ++ check (runes_of_ascii "options { }options   } // `tick` ""quote"" 'q'")).
+Eval vm_compute in ("<<<M54>>>" ++ check (runes_of_ascii "  MetaData
+u128{ uint32 lengthOf ,
     }
 ")).
-Eval vm_compute in ("<<<M1770>>>" ++ check (runes_of_ascii "options { }options {  } // `tick` ""quo''te"" 'q'")).
-Eval vm_compute in ("<<<M4002>>>" ++ check (runes_of_ascii "packet Z9_ {
-}// a // b
-
-root packet roots {
+Eval vm_compute in ("<<<M3025>>>" ++ check (runes_of_ascii "root packet A {
+    u8 x `a
+    b
+  c`,
 }")).
-Eval vm_compute in ("<<<M2170>>>" ++ check (runes_of_ascii "root
-    // `tick` ""quote"" 'q'
-    packet As")).
-Eval vm_compute in ("<<<M847>>>" ++ check (runes_of_ascii "// a // b
-options{ Logon = 255 // " ++ [27880; 37322]%N ++ runes_of_ascii "
-;}
-
-")).
-Eval vm_compute in ("<<<M3207>>>" ++ check (runes_of_ascii "MetaData zchar { zchar[ 3 ] Pad , }
-// c
-")).
-Eval vm_compute in ("<<<M2781>>>" ++ check (runes_of_ascii "} char[] uint64 @calculatedFrom( ""a	b"" :")).
-Eval vm_compute in ("<<<M2145>>>" ++ check (runes_of_ascii "MetaData x
+Eval vm_compute in ("<<<M2767>>>" ++ check (runes_of_ascii "?.FnyCC|]4Q^]Wpe|<8w(&q'w{$Q$6>[FB=&=G]#")).
+Eval vm_compute in ("<<<M2140>>>" ++ check (runes_of_ascii "MetaData x
 {// " ++ [128512]%N ++ runes_of_ascii " emoji
-i16 " ++ [233]%N ++ runes_of_ascii "stringy , }")).
+/i16 stringy , }")).
 Eval vm_compute in ("<<<M2716>>>" ++ check (runes_of_ascii "*IP{x[7V22]v- 1&ZP{7Zwd8_Yk146R_E;GKs+")).
-Eval vm_compute in ("<<<M3836>>>" ++ check (runes_of_ascii "packet A {
-}
+Eval vm_compute in ("<<<M3160>>>" ++ check (runes_of_ascii "MetaData M {
+}// c
+MetaData N {
+}// d")).
+Eval vm_compute in ("<<<M3177>>>" ++ check (runes_of_ascii "root // a
+ packet // b
+ A // c
+ { }")).
+Eval vm_compute in ("<<<M2828>>>" ++ check (runes_of_ascii "u64 root options `` char[] """" = :")).
+Eval vm_compute in ("<<<M2119>>>" ++ check (runes_of_ascii "MetaData x
+{// " ++ [128512]%N ++ runes_of_ascii " emoji
+i16  , }")).
+Eval vm_compute in ("<<<M3088>>>" ++ check (runes_of_ascii "packet A {
+ u8 x `d" ++ [8192]%N ++ runes_of_ascii "`, // c" ++ [8192]%N ++ runes_of_ascii "
+}")).
+Eval vm_compute in ("<<<M3974>>>" ++ check (runes_of_ascii "// c" ++ [8287]%N ++ runes_of_ascii "
+packet
+    A {
+    }
 
-options {
-    T = '0'
-}")).
-Eval vm_compute in ("<<<M2776>>>" ++ check (runes_of_ascii "@rightPad char : = char packet true")).
-Eval vm_compute in ("<<<M2610>>>" ++ check (runes_of_ascii "packet A { match k n { 1 : B }, }")).
-Eval vm_compute in ("<<<M3884>>>" ++ check (runes_of_ascii "options {
-    x = zchar[65535]
-}")).
-Eval vm_compute in ("<<<M2853>>>" ++ check (runes_of_ascii "$+K" ++ [807]%N ++ runes_of_ascii "j6N" ++ [31; 65533]%N ++ runes_of_ascii "x" ++ [65533; 65533; 65533]%N ++ runes_of_ascii "+" ++ [65533]%N ++ runes_of_ascii "d" ++ [15; 65533]%N ++ runes_of_ascii "m" ++ [65533; 23]%N ++ runes_of_ascii "+" ++ [24; 1; 65533; 65533; 65533]%N ++ runes_of_ascii "cb" ++ [65533]%N)).
-Eval vm_compute in ("<<<M2725>>>" ++ check (runes_of_ascii ", packet as MetaData ] int8 (")).
-Eval vm_compute in ("<<<M943>>>" ++ check (runes_of_ascii "
-MetaData a1{ // a // b
-}")).
-Eval vm_compute in ("<<<M2086>>>" ++ check (runes_of_ascii "MetaData A { u64 pack, }@x")).
-Eval vm_compute in ("<<<M2576>>>" ++ check (runes_of_ascii "packet A { char[ x ] y, }")).
-Eval vm_compute in ("<<<M2578>>>" ++ check (runes_of_ascii "packet A { char[ 3 ] , }")).
+")).
+Eval vm_compute in ("<<<M2588>>>" ++ check (runes_of_ascii "packet A { x @lengthOf(), }")).
+Eval vm_compute in ("<<<M2123>>>" ++ check (runes_of_ascii "MetaData x
+{// " ++ [128512]%N ++ runes_of_ascii " emoji
+i16")).
+Eval vm_compute in ("<<<M2719>>>" ++ check (runes_of_ascii ";" ++ [65533; 65533]%N ++ runes_of_ascii "M" ++ [29; 4; 65533; 37727]%N ++ runes_of_ascii "nK?" ++ [19; 65533; 65533; 65533]%N ++ runes_of_ascii "B" ++ [19; 16]%N ++ runes_of_ascii "%" ++ [65533; 65533; 65533; 65533]%N ++ runes_of_ascii "<" ++ [65533]%N)).
+Eval vm_compute in ("<<<M2665>>>" ++ check (runes_of_ascii "options { options = 1; }")).
 Eval vm_compute in ("<<<M2100>>>" ++ check (runes_of_ascii "MetaData A { u64 a" ++ [769]%N ++ runes_of_ascii "b, }")).
-Eval vm_compute in ("<<<M2700>>>" ++ check (runes_of_ascii "K gGV$myFaQIVqDT=DBdbG")).
-Eval vm_compute in ("<<<M4173>>>" ++ check (runes_of_ascii "// c" ++ [8287]%N ++ runes_of_ascii "
-	packet	A
-	{}
-
-")).
-Eval vm_compute in ("<<<M2537>>>" ++ check (runes_of_ascii ": , ; = ( ) [ ] { }")).
-Eval vm_compute in ("<<<M2712>>>" ++ check (runes_of_ascii "dA]ucOM4KH8ZrzZ}/;")).
-Eval vm_compute in ("<<<M3121>>>" ++ check (runes_of_ascii "packet A {
-}
-// c" ++ [12]%N)).
-Eval vm_compute in ("<<<M2819>>>" ++ check (runes_of_ascii "1c9fP,9u8%sQZ4{.)")).
-Eval vm_compute in ("<<<M2793>>>" ++ check (runes_of_ascii ", ] = ""`tick`"" {")).
-Eval vm_compute in ("<<<M2627>>>" ++ check (runes_of_ascii "packet A { } }")).
-Eval vm_compute in ("<<<M4041>>>" ++ check (runes_of_ascii "packet A {
+Eval vm_compute in ("<<<M2561>>>" ++ check (runes_of_ascii "packet A { repeat u8 }")).
+Eval vm_compute in ("<<<M3774>>>" ++ check (runes_of_ascii "root packet roots {
 }")).
-Eval vm_compute in ("<<<M2478>>>" ++ check (runes_of_ascii "@rightPad")).
-Eval vm_compute in ("<<<M2461>>>" ++ check (runes_of_ascii "repeats")).
-Eval vm_compute in ("<<<M3582>>>" ++ check (runes_of_ascii "///
- 
+Eval vm_compute in ("<<<M2570>>>" ++ check (runes_of_ascii "packet A { x y z, }")).
+Eval vm_compute in ("<<<M2026>>>" ++ check (runes_of_ascii "root
+packet crc
+ ")).
+Eval vm_compute in ("<<<M3111>>>" ++ check (runes_of_ascii "packet A {
+}
+// c" ++ [8287]%N)).
+Eval vm_compute in ("<<<M2759>>>" ++ check ([65533; 65533; 65533; 65533; 65533; 65533]%N ++ runes_of_ascii "|G" ++ [65533; 65533; 65533; 65533; 7; 65533; 65533]%N ++ runes_of_ascii "qb")).
+Eval vm_compute in ("<<<M2657>>>" ++ check (runes_of_ascii "options { a 1; }")).
+Eval vm_compute in ("<<<M2628>>>" ++ check (runes_of_ascii "packet A { } ;")).
+Eval vm_compute in ("<<<M532>>>" ++ check (runes_of_ascii " /// triple")).
+Eval vm_compute in ("<<<M2480>>>" ++ check (runes_of_ascii "@leftPadx")).
+Eval vm_compute in ("<<<M3622>>>" ++ check (runes_of_ascii "// c" ++ [8232]%N ++ runes_of_ascii "
 ")).
-Eval vm_compute in ("<<<M3075>>>" ++ check (runes_of_ascii "// c" ++ [133]%N)).
-Eval vm_compute in ("<<<M2524>>>" ++ check (runes_of_ascii "0x10")).
-Eval vm_compute in ("<<<M2531>>>" ++ check (runes_of_ascii "a_b")).
-Eval vm_compute in ("<<<M2553>>>" ++ check ([233]%N ++ runes_of_ascii "a")).
+Eval vm_compute in ("<<<M2430>>>" ++ check (runes_of_ascii "charz")).
+Eval vm_compute in ("<<<M3115>>>" ++ check (runes_of_ascii "// c" ++ [11]%N)).
+Eval vm_compute in ("<<<M2679>>>" ++ check (runes_of_ascii "
+	 ")).
+Eval vm_compute in ("<<<M2670>>>" ++ check (runes_of_ascii "{ }")).
+Eval vm_compute in ("<<<M2453>>>" ++ check (runes_of_ascii "a")).
